@@ -6,20 +6,23 @@ Theorems over `Model/SecureMsg` (ideal AEAD: the table `Aead` of `Enc key nonce 
 their wire bytes; `dec` opens a cipher text only as the term it stands for).
 
 * `roundtrip` — what `s.encode` produces, the mirrored session decodes to the identical header
-  (every field) and payload, for every well-formed header shape and every payload.
+  (every field) and payload, for every well-formed header shape and every payload (over TCP / BTP
+  the R and A flags are lowered on receipt, `adjust_reliability`; `roundtrip_udp`, `roundtrip_reliable`).
 * `accept_only_authentic`, `handed_on_only_if_authentic` — a datagram reaches `post_recv` / an
-  exchange of a secure session only if it is `AuthenticFor` that session: bit-identical to the wire
-  form of an encryption under the session's receive key, nonce = (security flags, counter, the peer
-  node id the session was established with), AAD = the complete plain header.
-* `accepted_was_encoded_for_me` — with a table filled by `Session.encode` only: the accepted datagram
-  was encoded by a session whose send key is my receive key and whose node id is my peer node id,
-  with exactly the header and payload that were decoded.
-* `aad_covers_header` — the same cipher text behind a header that differs in any field is never
-  handed to a secure session.
-* `reject_preserves_state`, `inauthentic_preserves_session`, `receive_keeps_keys` — a rejected
-  datagram leaves the whole table untouched; a datagram that is not authentic for a secure session
-  leaves that session (receive window, send counter, exchanges, keys) untouched whatever else it
-  causes; no delivery ever changes keys, identifiers or the send counter of any session.
+  exchange of a secure session only if it is `AuthenticFor` that session.
+* `accepted_was_encoded_for_me`, `aad_covers_header`.
+* Group receive (`get_or_create_for_group_rx`): `group_accept_only_authentic`,
+  `group_handed_on_only_if_authentic` — a group message for which no session exists is handed on only
+  if it is `GroupAuthentic` under a key that is `GroupKeyFor` the addressed group of a fabric, with
+  the header's source node id in the nonce; `group_transplant_rejected` — another key, another
+  header, another source node ⇒ not accepted; `opKey_injective` — another group's / fabric's key is
+  another key; `group_session_bound`; `gstore_only_if_group_authentic`, `reject_preserves_state` —
+  a rejected datagram touches neither the counter store nor any session.
+* `handle_rx_packet`: `handleRx_rejected` — after a datagram that `decode_packet` rejected before
+  `post_recv`, table and counter store are unchanged, nothing is handed on, and at most one unsecured
+  `SessionNotFound` report is sent; `inauthentic_is_rejected` — a secured datagram that is authentic
+  for no session and no group key is such a datagram.
+* `inauthentic_preserves_session`, `receive_keeps_keys`, `duplicate_preserves_state`.
 -/
 namespace C03
 open SecureMsg
@@ -40,53 +43,111 @@ theorem encode_plain (s : Session) (h : PacketHdr) (payload ct : Bytes) (hs : s.
     s.encode h payload ct = (h.plain.encode ++ (h.proto.encode ++ payload), none) := by
   simp [Session.encode, Session.getEncKey, hs]
 
-/-- **Round trip.** -/
-theorem roundtrip (t : Aead) (n : Node) (from_ idx : Nat) (s r : Session) (h : PacketHdr)
+/-- the receiver's knowledge with one more encryption in the table -/
+def Env.withRec (E : Env) (r : EncRec) : Env := { E with t := r :: E.t }
+
+/-- **Round trip.** The decoded protocol header is the encoded one with `adjust_reliability` of the
+receiving session's transport applied (the identity for UDP peers, see `roundtrip_udp`). -/
+theorem roundtrip (E : Env) (n : Node) (from_ : Addr) (idx : Nat) (s r : Session) (h : PacketHdr)
     (payload ct : Bytes)
     (hs : s.isEncrypted = true) (hr : r.isEncrypted = true)
     (hkey : r.decKey = s.encKey) (hnode : r.peerNode.getD 0 = s.localNode)
     (hpl : h.plain.WF) (hpr : h.proto.WF)
     (hfind : findRx n from_ h.plain = some idx) (hidx : n[idx]? = some r) :
-    decodeStage (mkRec s h payload ct :: t) n from_ (s.encode h payload ct).1 = .decoded idx h payload := by
+    decodeStage (Env.withRec E (mkRec s h payload ct)) n from_ (s.encode h payload ct).1
+      = .decoded idx { plain := h.plain, proto := h.proto.adjustReliability r.addr } payload := by
   rw [encode_secure s h payload ct hs]
   simp only
   unfold decodeStage
   rw [PlainHdr.decode_encode _ hpl]
   simp only [take_len_append, hfind, hidx]
-  unfold Session.decodeRemaining Session.getDecKey
+  unfold Session.decodeRemaining SecureMsg.decodeRemaining Session.getDecKey
   simp only [hr, if_true]
-  have hd : Aead.dec (mkRec s h payload ct :: t) r.decKey
+  have hd : Aead.dec (mkRec s h payload ct :: E.t) r.decKey
       (nonce h.plain.secFlags h.plain.ctr (r.peerNode.getD 0)) h.plain.encode ct
       = some (h.proto.encode ++ payload) := by
-    have := Aead.dec_head (mkRec s h payload ct) t
+    have := Aead.dec_head (mkRec s h payload ct) E.t
     rw [hkey, hnode]
     exact this
+  simp only [Env.withRec]
   rw [hd]
-  simp only [ProtoHdr.decode_encode _ hpr]
-/-- **Round trip through `decode_packet`**: the clean datagram is handed to `post_recv` of the mirrored
-session with the identical header and payload; what `receive` answers is what `post_recv` says about
-that header (new / existing exchange, duplicate, no exchange). -/
-theorem roundtrip_receive (t : Aead) (n : Node) (from_ idx : Nat) (s r : Session) (h : PacketHdr)
-    (payload ct : Bytes)
+  simp only [ProtoHdr.decode_encode _ hpr, Except.map]
+
+theorem adjust_udp (p : ProtoHdr) (ip : Ip) (port : Nat) : p.adjustReliability (.udp ip port) = p := by
+  simp [ProtoHdr.adjustReliability, Addr.isReliable]
+
+/-- **Round trip, UDP peer**: identical header fields and payload. -/
+theorem roundtrip_udp (E : Env) (n : Node) (from_ : Addr) (idx : Nat) (s r : Session) (h : PacketHdr)
+    (payload ct : Bytes) (ip : Ip) (port : Nat) (hudp : r.addr = .udp ip port)
     (hs : s.isEncrypted = true) (hr : r.isEncrypted = true)
     (hkey : r.decKey = s.encKey) (hnode : r.peerNode.getD 0 = s.localNode)
     (hpl : h.plain.WF) (hpr : h.proto.WF)
     (hfind : findRx n from_ h.plain = some idx) (hidx : n[idx]? = some r) :
-    receive (mkRec s h payload ct :: t) n from_ (s.encode h payload ct).1 =
-      (match (r.postRecv h).1 with
-        | .error e => Outcome.err e
-        | .ok nw => Outcome.ok idx nw h payload,
-       n.set idx (r.postRecv h).2) := by
-  unfold receive
-  rw [roundtrip t n from_ idx s r h payload ct hs hr hkey hnode hpl hpr hfind hidx]
-  simp only [hidx]
-  cases (r.postRecv h).1 <;> rfl
+    decodeStage (Env.withRec E (mkRec s h payload ct)) n from_ (s.encode h payload ct).1
+      = .decoded idx h payload := by
+  rw [roundtrip E n from_ idx s r h payload ct hs hr hkey hnode hpl hpr hfind hidx, hudp, adjust_udp]
+
+/-- `adjust_reliability` is idempotent: what a sender on a reliable transport stamps (`pre_send`
+lowers R and A) arrives unchanged -/
+theorem adjust_idem (p : ProtoHdr) (a : Addr) :
+    (p.adjustReliability a).adjustReliability a = p.adjustReliability a := by
+  unfold ProtoHdr.adjustReliability
+  cases h : a.isReliable
+  · simp
+  · simp only [if_true, clearBits]
+    congr 1
+    simp only [Nat.and_assoc]
+    have : ∀ x y z : Nat, x &&& y &&& z &&& y &&& z = x &&& y &&& z := by
+      intro x y z
+      apply Nat.eq_of_testBit_eq
+      intro i
+      simp only [Nat.testBit_and]
+      cases x.testBit i <;> cases y.testBit i <;> cases z.testBit i <;> rfl
+    simpa [Nat.and_assoc] using this p.exchFlags (255 ^^^ X_RELIABLE) (255 ^^^ X_ACK)
+
+/-- **Round trip, reliable transport**: a header as `pre_send` leaves it for a TCP / BTP peer
+(R and A lowered) is decoded to the identical fields. -/
+theorem roundtrip_reliable (E : Env) (n : Node) (from_ : Addr) (idx : Nat) (s r : Session) (h : PacketHdr)
+    (payload ct : Bytes) (p0 : ProtoHdr) (hadj : h.proto = p0.adjustReliability r.addr)
+    (hs : s.isEncrypted = true) (hr : r.isEncrypted = true)
+    (hkey : r.decKey = s.encKey) (hnode : r.peerNode.getD 0 = s.localNode)
+    (hpl : h.plain.WF) (hpr : h.proto.WF)
+    (hfind : findRx n from_ h.plain = some idx) (hidx : n[idx]? = some r) :
+    decodeStage (Env.withRec E (mkRec s h payload ct)) n from_ (s.encode h payload ct).1
+      = .decoded idx h payload := by
+  rw [roundtrip E n from_ idx s r h payload ct hs hr hkey hnode hpl hpr hfind hidx, hadj, adjust_idem, ← hadj]
+
+/-! ## What `decodeStage` establishes -/
+
+/-- the group branch never answers `decoded` / `newPlain` -/
+theorem groupStage_cases (E : Env) (from_ : Addr) (h : PlainHdr) (aad rest : Bytes) :
+    (∃ e hh, groupStage E from_ h aad rest = .rej e hh) ∨
+    (∃ c p pay src, groupStage E from_ h aad rest = .groupNew c { plain := h, proto := p } pay ∧
+      h.srcNode = some src ∧ (candidates E h).findSome? (tryGroup E.t from_ h src aad rest) = some (c, p, pay)) := by
+  unfold groupStage
+  cases hs : h.srcNode with
+  | none => left; exact ⟨_, _, rfl⟩
+  | some src =>
+    simp only
+    split
+    · left; exact ⟨_, _, rfl⟩
+    · split
+      · left; exact ⟨_, _, rfl⟩
+      · cases hf : (candidates E h).findSome? (tryGroup E.t from_ h src aad rest) with
+        | none =>
+          left
+          simp only
+          split <;> exact ⟨_, _, rfl⟩
+        | some v =>
+          obtain ⟨c, p, pay⟩ := v
+          right
+          exact ⟨c, p, pay, src, rfl, rfl, hf⟩
 
 /-- what `decodeStage` did when it answered `decoded` -/
-theorem decoded_inv {t : Aead} {n : Node} {from_ idx : Nat} {dg p : Bytes} {h : PacketHdr}
-    (hb : BytesOK dg) (hd : decodeStage t n from_ dg = .decoded idx h p) :
+theorem decoded_inv {E : Env} {n : Node} {from_ : Addr} {idx : Nat} {dg p : Bytes} {h : PacketHdr}
+    (hb : BytesOK dg) (hd : decodeStage E n from_ dg = .decoded idx h p) :
     ∃ rest r, dg = h.plain.encode ++ rest ∧ h.plain.WF ∧ findRx n from_ h.plain = some idx ∧
-      n[idx]? = some r ∧ r.decodeRemaining t h.plain h.plain.encode rest = .ok (h.proto, p) := by
+      n[idx]? = some r ∧ r.decodeRemaining E.t h.plain h.plain.encode rest = .ok (h.proto, p) := by
   unfold decodeStage at hd
   cases e : PlainHdr.decode dg with
   | error x => rw [e] at hd; cases hd
@@ -104,7 +165,9 @@ theorem decoded_inv {t : Aead} {n : Node} {from_ idx : Nat} {dg p : Bytes} {h : 
         · cases hd
         · split at hd <;> cases hd
       · split at hd
-        · repeat (first | cases hd | split at hd)
+        · rcases groupStage_cases E from_ hp (dg.take (dg.length - rest.length)) rest with ⟨e', hh, hg⟩ | ⟨c, p', pay, src, hg, _⟩
+          · rw [hg] at hd; cases hd
+          · rw [hg] at hd; cases hd
         · cases hd
     | some i =>
       rw [ef] at hd
@@ -114,7 +177,7 @@ theorem decoded_inv {t : Aead} {n : Node} {from_ idx : Nat} {dg p : Bytes} {h : 
       | some s =>
         rw [ei] at hd
         simp only at hd
-        cases er : s.decodeRemaining t hp (dg.take (dg.length - rest.length)) rest with
+        cases er : s.decodeRemaining E.t hp (dg.take (dg.length - rest.length)) rest with
         | error x => rw [er] at hd; cases hd
         | ok v =>
           obtain ⟨pp, pay⟩ := v
@@ -125,55 +188,40 @@ theorem decoded_inv {t : Aead} {n : Node} {from_ idx : Nat} {dg p : Bytes} {h : 
           rw [hdg, take_len_append] at er
           exact ⟨rest, s, hdg, hwf, ef, ei, er⟩
 
-theorem accept_only_authentic {t : Aead} {n : Node} {from_ idx : Nat} {dg p : Bytes} {h : PacketHdr}
-    {r : Session} (hb : BytesOK dg) (hd : decodeStage t n from_ dg = .decoded idx h p)
-    (hidx : n[idx]? = some r) (hr : r.isEncrypted = true) : AuthenticFor t r dg := by
+/-- a successful `decodeRemaining` under a key exhibits the encryption -/
+theorem decodeRemaining_key_inv {t : Aead} {k node : Nat} {a : Addr} {h : PlainHdr} {aad rest pay : Bytes}
+    {p : ProtoHdr} (hd : SecureMsg.decodeRemaining t (some k) node a h aad rest = .ok (p, pay)) :
+    ∃ rec ∈ t, rec.key = k ∧ rec.nonce = nonce h.secFlags h.ctr node ∧ rec.aad = aad ∧ rec.ct = rest ∧
+      ∃ p0, ProtoHdr.decode rec.pt = .ok (p0, pay) ∧ p = p0.adjustReliability a := by
+  unfold SecureMsg.decodeRemaining at hd
+  simp only at hd
+  cases e : Aead.dec t k (nonce h.secFlags h.ctr node) aad rest with
+  | none => rw [e] at hd; cases hd
+  | some pt =>
+    rw [e] at hd
+    simp only at hd
+    obtain ⟨rec, hm, hk, hn, ha, hc, hpt⟩ := Aead.dec_some e
+    cases ep : ProtoHdr.decode pt with
+    | error x => rw [ep] at hd; cases hd
+    | ok v =>
+      obtain ⟨p0, pay0⟩ := v
+      rw [ep] at hd
+      simp only [Except.map, Except.ok.injEq, Prod.mk.injEq] at hd
+      obtain ⟨h1, h2⟩ := hd
+      subst h2
+      exact ⟨rec, hm, hk, hn, ha, hc, p0, by rw [hpt]; exact ep, h1.symm⟩
+
+theorem accept_only_authentic {E : Env} {n : Node} {from_ : Addr} {idx : Nat} {dg p : Bytes} {h : PacketHdr}
+    {r : Session} (hb : BytesOK dg) (hd : decodeStage E n from_ dg = .decoded idx h p)
+    (hidx : n[idx]? = some r) (hr : r.isEncrypted = true) : AuthenticFor E.t r dg := by
   obtain ⟨rest, r', hdg, hwf, _, hi, hrem⟩ := decoded_inv hb hd
   rw [hidx] at hi
   injection hi with hi
   subst hi
   unfold Session.decodeRemaining Session.getDecKey at hrem
   simp only [hr, if_true] at hrem
-  cases e : Aead.dec t r.decKey (nonce h.plain.secFlags h.plain.ctr (r.peerNode.getD 0)) h.plain.encode rest with
-  | none => rw [e] at hrem; cases hrem
-  | some pt =>
-    obtain ⟨rec, hm, hk, hn, ha, hc, _⟩ := Aead.dec_some e
-    exact ⟨rec, hm, h.plain, hk, ha, by rw [ha, hc]; exact hdg, hn⟩
-
-/-- **Handed on only if authentic** (the statement at the level of `decode_packet`). -/
-theorem handed_on_only_if_authentic {t : Aead} {n n' : Node} {from_ idx : Nat} {dg p : Bytes}
-    {h : PacketHdr} {nw : Bool} {r : Session} (hb : BytesOK dg)
-    (hrecv : receive t n from_ dg = (.ok idx nw h p, n')) (hidx : n[idx]? = some r)
-    (hr : r.isEncrypted = true) : AuthenticFor t r dg := by
-  unfold receive at hrecv
-  cases e : decodeStage t n from_ dg with
-  | rej x => rw [e] at hrecv; simp at hrecv
-  | decoded i hh pp =>
-    rw [e] at hrecv
-    simp only at hrecv
-    cases ei : n[i]? with
-    | none => rw [ei] at hrecv; simp at hrecv
-    | some s =>
-      rw [ei] at hrecv
-      simp only at hrecv
-      split at hrecv
-      · simp at hrecv
-      · simp only [Prod.mk.injEq, Outcome.ok.injEq] at hrecv
-        obtain ⟨⟨h1, _, _, _⟩, _⟩ := hrecv
-        subst h1
-        exact accept_only_authentic hb e hidx hr
-  | newPlain hh pp =>
-    rw [e] at hrecv
-    simp only at hrecv
-    split at hrecv
-    · split at hrecv
-      · simp at hrecv
-      · simp only [Prod.mk.injEq, Outcome.ok.injEq] at hrecv
-        obtain ⟨⟨h1, _, _, _⟩, _⟩ := hrecv
-        -- the new session sits behind the table: `idx = n.length` is no existing session
-        subst h1
-        simp at hidx
-    · simp at hrecv
+  obtain ⟨rec, hm, hk, hn, ha, hc, _⟩ := decodeRemaining_key_inv hrem
+  exact ⟨rec, hm, h.plain, hk, ha, by rw [ha, hc]; exact hdg, hn⟩
 
 /-- a table filled by `Session.encode` calls of the sessions `S` only -/
 def ProducedBy (t : Aead) (S : List Session) : Prop :=
@@ -181,45 +229,40 @@ def ProducedBy (t : Aead) (S : List Session) : Prop :=
     s.isEncrypted = true ∧ s.localNode < 256 ^ 8 ∧ h.plain.WF ∧ h.proto.WF ∧ rec = mkRec s h payload rec.ct
 
 /-- **Accepted ⇒ encoded for me.** With only honest encryptions in the table, a datagram that reaches
-`post_recv` of the secure session `r` is the output of `s.encode h p` for a session `s` whose send key
-is `r`'s receive key and whose node id is the peer node id `r` expects — and `h`, `p` are exactly
-the header and payload the receiver decoded. -/
-theorem accepted_was_encoded_for_me {t : Aead} {S : List Session} {n : Node} {from_ idx : Nat}
-    {dg p : Bytes} {h : PacketHdr} {r : Session} (hprod : ProducedBy t S) (hb : BytesOK dg)
-    (hd : decodeStage t n from_ dg = .decoded idx h p) (hidx : n[idx]? = some r)
+`post_recv` of the secure session `r` is the output of `s.encode h0 p` for a session `s` whose send key
+is `r`'s receive key and whose node id is the peer node id `r` expects — and the header and payload
+the receiver decoded are exactly `h0` (protocol header after `adjust_reliability`) and `p`. -/
+theorem accepted_was_encoded_for_me {E : Env} {S : List Session} {n : Node} {from_ : Addr} {idx : Nat}
+    {dg p : Bytes} {h : PacketHdr} {r : Session} (hprod : ProducedBy E.t S) (hb : BytesOK dg)
+    (hd : decodeStage E n from_ dg = .decoded idx h p) (hidx : n[idx]? = some r)
     (hr : r.isEncrypted = true) (hnode : r.peerNode.getD 0 < 256 ^ 8) :
-    ∃ s ∈ S, ∃ ct, s.encKey = r.decKey ∧ s.localNode = r.peerNode.getD 0 ∧
-      dg = (s.encode h p ct).1 ∧ mkRec s h p ct ∈ t := by
+    ∃ s ∈ S, ∃ ct h0, s.encKey = r.decKey ∧ s.localNode = r.peerNode.getD 0 ∧
+      dg = (s.encode h0 p ct).1 ∧ h = { plain := h0.plain, proto := h0.proto.adjustReliability r.addr } ∧
+      mkRec s h0 p ct ∈ E.t := by
   obtain ⟨rest, r', hdg, hwf, _, hi, hrem⟩ := decoded_inv hb hd
   rw [hidx] at hi
   injection hi with hi
   subst hi
   unfold Session.decodeRemaining Session.getDecKey at hrem
   simp only [hr, if_true] at hrem
-  cases e : Aead.dec t r.decKey (nonce h.plain.secFlags h.plain.ctr (r.peerNode.getD 0)) h.plain.encode rest with
-  | none => rw [e] at hrem; cases hrem
-  | some pt =>
-    rw [e] at hrem
-    simp only at hrem
-    obtain ⟨rec, hm, hk, hn, ha, hc, hpt⟩ := Aead.dec_some e
-    obtain ⟨s, hs, h', payload, hse, hsn, hw', hpw', hrec⟩ := hprod rec hm
-    have hkey : s.encKey = r.decKey := by rw [← hk, hrec]; rfl
-    have haad : h'.plain.encode = h.plain.encode := by rw [← ha, hrec]; rfl
-    have hpl : h'.plain = h.plain := PlainHdr.encode_injective hw' hwf haad
-    have hnonce : nonce h'.plain.secFlags h'.plain.ctr s.localNode
-        = nonce h.plain.secFlags h.plain.ctr (r.peerNode.getD 0) := by rw [← hn, hrec]; rfl
-    have hsn' : s.localNode = r.peerNode.getD 0 :=
-      (nonce_injective (secflags_lt hw'.secFlags) hw'.ctr hsn (secflags_lt hwf.secFlags) hwf.ctr hnode hnonce).2.2
-    have hpt' : pt = h'.proto.encode ++ payload := by rw [← hpt, hrec]; rfl
-    rw [hpt', ProtoHdr.decode_encode _ hpw'] at hrem
-    simp only [Except.ok.injEq, Prod.mk.injEq] at hrem
-    obtain ⟨hpr, hpay⟩ := hrem
-    have hh : h' = h := by
-      cases h'; cases h; simp only [PacketHdr.mk.injEq] at *; exact ⟨hpl, hpr⟩
-    subst hh hpay
-    refine ⟨s, hs, rec.ct, hkey, hsn', ?_, ?_⟩
-    · rw [encode_secure s h' payload rec.ct hse, hdg, hc]
-    · rw [← hrec]; exact hm
+  obtain ⟨rec, hm, hk, hn, ha, hc, p0, hp0, hadj⟩ := decodeRemaining_key_inv hrem
+  obtain ⟨s, hs, h', payload, hse, hsn, hw', hpw', hrec⟩ := hprod rec hm
+  have hkey : s.encKey = r.decKey := by rw [← hk, hrec]; rfl
+  have haad : h'.plain.encode = h.plain.encode := by rw [← ha, hrec]; rfl
+  have hpl : h'.plain = h.plain := PlainHdr.encode_injective hw' hwf haad
+  have hnonce : nonce h'.plain.secFlags h'.plain.ctr s.localNode
+      = nonce h.plain.secFlags h.plain.ctr (r.peerNode.getD 0) := by rw [← hn, hrec]; rfl
+  have hsn' : s.localNode = r.peerNode.getD 0 :=
+    (nonce_injective (secflags_lt hw'.secFlags) hw'.ctr hsn (secflags_lt hwf.secFlags) hwf.ctr hnode hnonce).2.2
+  have hpt' : rec.pt = h'.proto.encode ++ payload := by rw [hrec]; rfl
+  rw [hpt', ProtoHdr.decode_encode _ hpw'] at hp0
+  simp only [Except.ok.injEq, Prod.mk.injEq] at hp0
+  obtain ⟨hpr, hpay⟩ := hp0
+  subst hpay hpr
+  refine ⟨s, hs, rec.ct, h', hkey, hsn', ?_, ?_, ?_⟩
+  · rw [encode_secure s h' payload rec.ct hse, hdg, hc, hpl]
+  · cases h; simp only [PacketHdr.mk.injEq] at *; exact ⟨hpl.symm, hadj⟩
+  · rw [← hrec]; exact hm
 
 /-- ideal AEAD, second half: distinct encryptions have distinct cipher texts (the tag binds key,
 nonce and associated data); checked on the real AES-CCM outputs by the driver on every run -/
@@ -229,11 +272,11 @@ def CtInjective (t : Aead) : Prop := ∀ r ∈ t, ∀ r' ∈ t, r.ct = r'.ct →
 (`mkRec s h payload ct ∈ t`) and put its cipher text behind *any* other well-formed header `h'`
 — a change of any field: flags, session id, security flags, counter, source, destination. The
 result is never decoded for a secure session, on any node, from any address. -/
-theorem aad_covers_header {t : Aead} {n : Node} {from_ : Nat} {s : Session} {h : PacketHdr}
-    {payload ct : Bytes} (hin : mkRec s h payload ct ∈ t) (hinj : CtInjective t)
+theorem aad_covers_header {E : Env} {n : Node} {from_ : Addr} {s : Session} {h : PacketHdr}
+    {payload ct : Bytes} (hin : mkRec s h payload ct ∈ E.t) (hinj : CtInjective E.t)
     (hw : h.plain.WF) (hct : BytesOK ct) (h' : PlainHdr) (hw' : h'.WF) (hne : h' ≠ h.plain)
     {idx : Nat} {hh : PacketHdr} {p : Bytes} {r : Session}
-    (hd : decodeStage t n from_ (h'.encode ++ ct) = .decoded idx hh p) (hidx : n[idx]? = some r) :
+    (hd : decodeStage E n from_ (h'.encode ++ ct) = .decoded idx hh p) (hidx : n[idx]? = some r) :
     r.isEncrypted = false := by
   cases hr : r.isEncrypted with
   | false => rfl
@@ -251,18 +294,214 @@ theorem aad_covers_header {t : Aead} {n : Node} {from_ : Nat} {s : Session} {h :
     obtain ⟨e1, e2⟩ := e1
     unfold Session.decodeRemaining Session.getDecKey at hrem
     simp only [hr, if_true] at hrem
-    cases e : Aead.dec t r.decKey (nonce hh.plain.secFlags hh.plain.ctr (r.peerNode.getD 0)) hh.plain.encode rest with
-    | none => rw [e] at hrem; cases hrem
-    | some pt =>
-      obtain ⟨rec, hm, _, _, ha, hc, _⟩ := Aead.dec_some e
-      have : rec = mkRec s h payload ct := hinj rec hm _ hin (by rw [hc, e2]; rfl)
-      rw [this] at ha
-      have : h.plain.encode = h'.encode := by rw [← e1]; exact ha
-      exact hne (PlainHdr.encode_injective hw' hw this.symm)
+    obtain ⟨rec, hm, _, _, ha, hc, _⟩ := decodeRemaining_key_inv hrem
+    have : rec = mkRec s h payload ct := hinj rec hm _ hin (by rw [hc, e2]; rfl)
+    rw [this] at ha
+    have : h.plain.encode = h'.encode := by rw [← e1]; exact ha
+    exact hne (PlainHdr.encode_injective hw' hw this.symm)
 
-theorem reject_preserves_state {t : Aead} {n : Node} {from_ : Nat} {dg : Bytes} {e : Err}
-    (h : decodeStage t n from_ dg = .rej e) : receive t n from_ dg = (.err e, n) := by
-  simp [receive, h]
+/-! ## Group receive: the key-derivation branch -/
+
+/-- the operational key determines epoch key and fabric: another group's epoch key or another
+fabric's compressed fabric id give another key (epoch keys are 128-bit) -/
+theorem opKey_injective {e c e' c' : Nat} (he : e < 2 ^ 128) (he' : e' < 2 ^ 128)
+    (h : opKey e c = opKey e' c') : e = e' ∧ c = c' := by
+  unfold opKey at h
+  have h2 : (340282366920938463463374607431768211456 : Nat) = 2 ^ 128 := by decide
+  rw [h2] at h
+  generalize (2 : Nat) ^ 128 = M at *
+  have h3 : c * M + e = c' * M + e' := by omega
+  have hc : c = c' := by
+    rcases Nat.lt_trichotomy c c' with hlt | heq | hgt
+    · exfalso
+      have : (c + 1) * M ≤ c' * M := Nat.mul_le_mul_right M hlt
+      rw [Nat.add_mul] at this
+      omega
+    · exact heq
+    · exfalso
+      have : (c' + 1) * M ≤ c * M := Nat.mul_le_mul_right M hgt
+      rw [Nat.add_mul] at this
+      omega
+  subst hc
+  exact ⟨by omega, rfl⟩
+
+/-- an operational group key never equals a directly installed (even) key -/
+theorem opKey_odd (e c : Nat) : opKey e c % 2 = 1 := by
+  unfold opKey; omega
+
+/-- **Every key the loop tries is a key the node holds for the addressed group**: derived from an
+epoch key of a key set mapped to the addressed group in that fabric (for a unicast-addressed message:
+of the fabric in which the node has the addressed node id), and its group session id is the header's -/
+theorem cand_spec {E : Env} {h : PlainHdr} {c : Cand} (hc : c ∈ candidates E h) :
+    ∃ f, GroupKeyFor E.fabs h f c.gid c.key ∧ c.fabIdx = f.fabIdx ∧ c.nodeId = f.nodeId ∧
+      E.gsid c.key = h.sessId := by
+  unfold candidates at hc
+  obtain ⟨f, hf, hc⟩ := List.mem_flatMap.mp hc
+  unfold candsOfFabric at hc
+  by_cases hu : skipFabric h f = true
+  · rw [if_pos hu] at hc; exact absurd hc List.not_mem_nil
+  · rw [if_neg hu] at hc
+    obtain ⟨m, hm, hc⟩ := List.mem_flatMap.mp hc
+    unfold candsOfMap at hc
+    by_cases hg : skipMap h m = true
+    · rw [if_pos hg] at hc; exact absurd hc List.not_mem_nil
+    · rw [if_neg hg] at hc
+      cases hks : f.keySets.find? (fun ks => ks.id == m.2) with
+      | none => rw [hks] at hc; exact absurd hc List.not_mem_nil
+      | some ks =>
+        rw [hks] at hc
+        obtain ⟨e, he, hce⟩ := List.mem_filterMap.mp hc
+        simp only at hce
+        by_cases hsid : (E.gsid (opKey e f.cfid) == h.sessId) = true
+        · rw [if_pos hsid] at hce
+          injection hce with hce
+          subst hce
+          have hksm := List.mem_of_find?_eq_some hks
+          have hksid : ks.id = m.2 := by
+            have := List.find?_some hks
+            simpa using this
+          have hgid : ∀ g, h.dstGroup = some g → m.1 = g := by
+            intro g hg'
+            unfold skipMap at hg
+            rw [hg'] at hg
+            simpa using hg
+          have hnode : ∀ d, h.dstUnicast = some d → f.nodeId = d := by
+            intro d hd
+            unfold skipFabric at hu
+            rw [hd] at hu
+            simpa using hu
+          have hgid' : h.dstGroup.getD m.1 = m.1 := by
+            cases hd : h.dstGroup with
+            | none => rfl
+            | some g => simp [(hgid g hd)]
+          refine ⟨f, ⟨hf, m.2, ?_, ks, hksm, hksid, e, he, rfl, ?_, hnode⟩, rfl, rfl, by simpa using hsid⟩
+          · simp only [hgid']; exact hm
+          · intro g hg'; simp only [hgid']; exact hgid g hg'
+        · rw [if_neg hsid] at hce; cases hce
+
+theorem findSome?_mem {α β : Type} {f : α → Option β} {l : List α} {b : β}
+    (h : l.findSome? f = some b) : ∃ a ∈ l, f a = some b := by
+  induction l with
+  | nil => cases h
+  | cons x xs ih =>
+    simp only [List.findSome?_cons] at h
+    cases hx : f x with
+    | some v =>
+      rw [hx] at h
+      injection h with h
+      subst h
+      exact ⟨x, by simp, hx⟩
+    | none =>
+      rw [hx] at h
+      obtain ⟨a, ha, hfa⟩ := ih h
+      exact ⟨a, by simp [ha], hfa⟩
+
+/-- what `decodeStage` did when it answered `groupNew` -/
+theorem groupNew_inv {E : Env} {n : Node} {from_ : Addr} {c : Cand} {dg p : Bytes} {h : PacketHdr}
+    (hb : BytesOK dg) (hd : decodeStage E n from_ dg = .groupNew c h p) :
+    ∃ rest src, dg = h.plain.encode ++ rest ∧ h.plain.WF ∧ findRx n from_ h.plain = none ∧
+      h.plain.isGroup = true ∧ h.plain.srcNode = some src ∧ c ∈ candidates E h.plain ∧
+      SecureMsg.decodeRemaining E.t (some c.key) src from_ h.plain h.plain.encode rest = .ok (h.proto, p) := by
+  unfold decodeStage at hd
+  cases e : PlainHdr.decode dg with
+  | error x => rw [e] at hd; cases hd
+  | ok v =>
+    obtain ⟨hp, rest⟩ := v
+    rw [e] at hd
+    obtain ⟨hdg, hwf, _⟩ := PlainHdr.decode_sound hb e
+    simp only at hd
+    cases ef : findRx n from_ hp with
+    | some i =>
+      rw [ef] at hd
+      simp only at hd
+      split at hd
+      · cases hd
+      · split at hd <;> cases hd
+    | none =>
+      rw [ef] at hd
+      simp only at hd
+      split at hd
+      · split at hd
+        · cases hd
+        · split at hd <;> cases hd
+      · split at hd
+        · rename_i hgrp
+          rcases groupStage_cases E from_ hp (dg.take (dg.length - rest.length)) rest with ⟨e', hh, hg⟩ | ⟨c', p', pay, src, hg, hsrc, hfs⟩
+          · rw [hg] at hd; cases hd
+          · rw [hg] at hd
+            simp only [Stage.groupNew.injEq] at hd
+            obtain ⟨h1, h2, h3⟩ := hd
+            subst h1 h2 h3
+            obtain ⟨a, ha, hta⟩ := findSome?_mem hfs
+            unfold tryGroup at hta
+            split at hta
+            · rename_i p2 pay2 heq
+              simp only [Option.some.injEq, Prod.mk.injEq] at hta
+              obtain ⟨h1, h2, h3⟩ := hta
+              subst h1 h2 h3
+              rw [hdg, take_len_append] at heq
+              exact ⟨rest, src, hdg, hwf, ef, hgrp, hsrc, ha, heq⟩
+            · cases hta
+        · cases hd
+
+/-- **A group message is accepted only if it is authentic under a key mapped to the addressed
+group**: some fabric `f` of the node maps the addressed group to a key set one of whose epoch keys
+yields `c.key`, the datagram is bit-identical to `aad ++ ct` of an encryption under exactly that
+key with the complete header as associated data and the *header's source node id* in the nonce. -/
+theorem group_accept_only_authentic {E : Env} {n : Node} {from_ : Addr} {c : Cand} {dg p : Bytes}
+    {h : PacketHdr} (hb : BytesOK dg) (hd : decodeStage E n from_ dg = .groupNew c h p) :
+    ∃ f src, GroupKeyFor E.fabs h.plain f c.gid c.key ∧ c.fabIdx = f.fabIdx ∧ c.nodeId = f.nodeId ∧
+      E.gsid c.key = h.plain.sessId ∧ GroupAuthentic E.t c.key dg h.plain src := by
+  obtain ⟨rest, src, hdg, _, _, hgrp, hsrc, hc, hrem⟩ := groupNew_inv hb hd
+  obtain ⟨f, hk, h1, h2, h3⟩ := cand_spec hc
+  obtain ⟨rec, hm, hkey, hn, ha, hct, _⟩ := decodeRemaining_key_inv hrem
+  exact ⟨f, src, hk, h1, h2, h3, hsrc, hgrp, rec, hm, hkey, ha, by rw [ha, hct]; exact hdg, hn⟩
+
+/-- **Transplants are rejected.** Take any encryption `rec0` that was really made and deliver its
+cipher text behind any header bytes. If the key of `rec0` is none of the keys the node holds for
+the group the (parsed) header addresses — another group's key, another fabric's key, a key the node
+does not have —, or the header differs in any bit from the one that was authenticated, or the
+header's source node id is not the one in the nonce: the datagram does not pass the group branch. -/
+theorem group_transplant_rejected {E : Env} {n : Node} {from_ : Addr} {rec0 : EncRec} {dg : Bytes}
+    (hinj : CtInjective E.t) (hin : rec0 ∈ E.t) (hb : BytesOK dg)
+    {c : Cand} {h : PacketHdr} {p : Bytes} (hd : decodeStage E n from_ dg = .groupNew c h p)
+    (hct : dg = h.plain.encode ++ rec0.ct) :
+    rec0.key = c.key ∧ c ∈ candidates E h.plain ∧ rec0.aad = h.plain.encode ∧
+      ∃ src, h.plain.srcNode = some src ∧ rec0.nonce = nonce h.plain.secFlags h.plain.ctr src := by
+  obtain ⟨rest, src, hdg, _, _, _, hsrc, hc, hrem⟩ := groupNew_inv hb hd
+  obtain ⟨rec, hm, hkey, hn, ha, hrest, _⟩ := decodeRemaining_key_inv hrem
+  have : rest = rec0.ct := by
+    rw [hct] at hdg
+    exact (List.append_cancel_left hdg).symm
+  have hrr : rec = rec0 := hinj rec hm rec0 hin (by rw [hrest, this])
+  subst hrr
+  exact ⟨hkey, hc, ha, src, hsrc, hn⟩
+
+/-! ## `decode_packet` as a whole -/
+
+@[simp] theorem touch_node (w : World) (now : Nat) (from_ : Addr) (dg : Bytes) :
+    (w.touch now from_ dg).node = w.node := by
+  unfold World.touch
+  split
+  · rfl
+  · split <;> rfl
+
+@[simp] theorem touch_gstore (w : World) (now : Nat) (from_ : Addr) (dg : Bytes) :
+    (w.touch now from_ dg).gstore = w.gstore := by
+  unfold World.touch
+  split
+  · rfl
+  · split <;> rfl
+
+/-- **Rejected before `post_recv` ⇒ neither a session nor the group counter store is touched**
+(only `last_use` of the session the header addressed was refreshed by the lookup). -/
+theorem reject_preserves_state {E : Env} {now : Nat} {w : World} {from_ : Addr} {dg : Bytes} {e : Err}
+    {hh : PacketHdr} (h : decodeStage E w.node from_ dg = .rej e hh) :
+    (receive E now w from_ dg).1 = .err e ∧ (receive E now w from_ dg).2.node = w.node ∧
+      (receive E now w from_ dg).2.gstore = w.gstore := by
+  unfold receive
+  simp only [touch_node, h]
+  simp
 
 /-- everything of a session that receiving must never touch -/
 def fixedPart (s : Session) :=
@@ -285,39 +524,406 @@ theorem postRecv_fixed (s : Session) (h : PacketHdr) : fixedPart (s.postRecv h).
           · split <;> rfl
           · rfl
 
-/-- the table after a delivery: unchanged, one session replaced by its `postRecv`, or one appended -/
-theorem receive_shape (t : Aead) (n : Node) (from_ : Nat) (dg : Bytes) :
-    (receive t n from_ dg).2 = n ∨
-    (∃ idx h p s, decodeStage t n from_ dg = .decoded idx h p ∧ n[idx]? = some s ∧
-        (receive t n from_ dg).2 = n.set idx (s.postRecv h).2) ∨
-    (∃ s', (receive t n from_ dg).2 = n ++ [s']) := by
+theorem add_node {w w' : World} {now : Nat} {s : Session} (h : w.add now s = some w') :
+    w'.node = w.node ++ [s] ∧ w'.gstore = w.gstore := by
+  unfold World.add at h
+  split at h
+  · injection h with h; subst h; exact ⟨rfl, rfl⟩
+  · cases h
+
+theorem add_none_full {w : World} {now : Nat} {s : Session} (h : w.add now s = none) :
+    w.node.length ≥ MAX_SESSIONS := by
+  unfold World.add at h
+  split at h
+  · cases h
+  · rename_i hlt; omega
+
+@[simp] theorem groupCtr_node (w : World) (c : Cand) (h : PlainHdr) : (w.groupCtr c h).1.node = w.node := by
+  unfold World.groupCtr
+  split <;> rfl
+
+@[simp] theorem groupCtr_lru (w : World) (c : Cand) (h : PlainHdr) : (w.groupCtr c h).1.lru = w.lru := by
+  unfold World.groupCtr
+  split <;> rfl
+
+/-- `makeRoom`: the session is appended; a session was evicted first only if the table was full -/
+theorem makeRoom_node {w w' : World} {now : Nat} {s : Session} (h : w.makeRoom now s = some w') :
+    w'.node = w.node ++ [s] ∨
+    (w.node.length ≥ MAX_SESSIONS ∧ ∃ i, w.evictIdx now = some i ∧ w'.node = swapRemove w.node i ++ [s]) := by
+  unfold World.makeRoom at h
+  cases ha : w.add now s with
+  | some w1 =>
+    rw [ha] at h
+    injection h with h
+    subst h
+    left; exact (add_node ha).1
+  | none =>
+    rw [ha] at h
+    simp only at h
+    cases he : w.evictIdx now with
+    | none => rw [he] at h; cases h
+    | some i =>
+      rw [he] at h
+      simp only at h
+      right
+      exact ⟨add_none_full ha, i, rfl, (add_node h).1⟩
+
+theorem deliverLast_node (w : World) (s : Session) (h : PacketHdr) (p : Bytes) (xs : List Session)
+    (hn : w.node = xs ++ [s]) : (w.deliverLast s h p).2.node = xs ++ [(s.postRecv h).2] := by
+  unfold World.deliverLast
+  simp only [hn]
+  simp
+
+@[simp] theorem groupDataCheck_node (w : World) (s : Session) (h : PlainHdr) :
+    (w.groupDataCheck s h).2.node = w.node := by
+  unfold World.groupDataCheck
+  split
+  · split
+    · split <;> rfl
+    · rfl
+  · rfl
+
+theorem deliverAt_node (w : World) (idx : Nat) (s : Session) (h : PacketHdr) (p : Bytes) :
+    (w.deliverAt idx s h p).2.node = w.node.set idx (s.postRecv h).2 := rfl
+
+theorem deliverAt_gstore (w : World) (idx : Nat) (s : Session) (h : PacketHdr) (p : Bytes) :
+    (w.deliverAt idx s h p).2.gstore = w.gstore := rfl
+
+theorem deliverAt_ok {w w' : World} {s : Session} {h h' : PacketHdr} {p p' : Bytes} {i idx : Nat} {nw : Bool}
+    (hd : w.deliverAt i s h p = (.ok idx nw h' p', w')) : h' = h ∧ p' = p ∧ idx = i := by
+  unfold World.deliverAt at hd
+  simp only [Prod.mk.injEq] at hd
+  obtain ⟨h1, _⟩ := hd
+  split at h1
+  · cases h1
+  · simp only [Outcome.ok.injEq] at h1
+    exact ⟨h1.2.2.1.symm, h1.2.2.2.symm, h1.1.symm⟩
+
+/-- the table after the group branch accepted a message: unchanged (duplicate counter / no room),
+or the new session appended — after the LRU idle session was evicted if the table was full -/
+theorem groupAccept_node (w : World) (now : Nat) (from_ : Addr) (c : Cand) (h : PacketHdr) (p : Bytes) :
+    (w.groupAccept now from_ c h p).2.node = w.node ∨
+    (w.groupAccept now from_ c h p).2.node = w.node ++ [((groupSession from_ c h.plain).postRecv h).2] ∨
+    (w.node.length ≥ MAX_SESSIONS ∧ ∃ i, w.evictIdx now = some i ∧
+        (w.groupAccept now from_ c h p).2.node
+          = swapRemove w.node i ++ [((groupSession from_ c h.plain).postRecv h).2]) := by
+  unfold World.groupAccept
+  simp only
+  split
+  · left; exact groupCtr_node _ _ _
+  · cases hm : (w.groupCtr c h.plain).1.makeRoom now (groupSession from_ c h.plain) with
+    | none => left; exact groupCtr_node _ _ _
+    | some w1 =>
+      simp only
+      rcases makeRoom_node hm with h1 | ⟨hfull, i, he, h1⟩
+      · right; left
+        rw [groupCtr_node] at h1
+        exact deliverLast_node w1 _ h p _ h1
+      · right; right
+        rw [groupCtr_node] at h1 hfull
+        refine ⟨hfull, i, ?_, deliverLast_node w1 _ h p _ h1⟩
+        unfold World.evictIdx at he ⊢
+        simpa using he
+
+/-- the table after a delivery: unchanged, one session replaced by its `postRecv`, one appended,
+or — only for an authenticated group message on a full table — one evicted and one appended -/
+theorem receive_shape (E : Env) (now : Nat) (w : World) (from_ : Addr) (dg : Bytes) :
+    (receive E now w from_ dg).2.node = w.node ∨
+    (∃ idx h p s, decodeStage E w.node from_ dg = .decoded idx h p ∧ w.node[idx]? = some s ∧
+        (receive E now w from_ dg).2.node = w.node.set idx (s.postRecv h).2) ∨
+    (∃ s', (receive E now w from_ dg).2.node = w.node ++ [s']) ∨
+    (w.node.length ≥ MAX_SESSIONS ∧ ∃ c h p i s', decodeStage E w.node from_ dg = .groupNew c h p ∧
+        (receive E now w from_ dg).2.node = swapRemove w.node i ++ [s']) := by
   unfold receive
-  cases e : decodeStage t n from_ dg with
-  | rej x => left; rfl
+  simp only [touch_node]
+  cases e : decodeStage E w.node from_ dg with
+  | rej x hh => left; exact touch_node _ _ _ _
   | decoded idx h p =>
     simp only
-    cases ei : n[idx]? with
-    | none => left; rfl
+    cases ei : w.node[idx]? with
+    | none => left; exact touch_node _ _ _ _
     | some s =>
-      right; left
-      refine ⟨idx, h, p, s, rfl, ei, ?_⟩
       simp only
-      split <;> rfl
+      cases hc : ((w.touch now from_ dg).groupDataCheck s h.plain).1 with
+      | some x =>
+        left
+        simp only
+        rw [groupDataCheck_node, touch_node]
+      | none =>
+        right; left
+        refine ⟨idx, h, p, s, rfl, ei, ?_⟩
+        simp only
+        rw [deliverAt_node, groupDataCheck_node, touch_node]
   | newPlain h p =>
     simp only
-    split
-    · right; right
-      refine ⟨(({ addr := from_, peerNode := h.plain.srcNode } : Session).postRecv h).2, ?_⟩
-      split <;> rfl
-    · left; rfl
+    cases ha : (w.touch now from_ dg).add now { addr := from_, peerNode := h.plain.srcNode } with
+    | some w1 =>
+      right; right; left
+      have := (add_node ha).1
+      rw [touch_node] at this
+      exact ⟨_, deliverLast_node w1 _ h p _ this⟩
+    | none => left; exact touch_node _ _ _ _
+  | groupNew c h p =>
+    simp only
+    rcases groupAccept_node (w.touch now from_ dg) now from_ c h p with h1 | h1 | ⟨hfull, i, _, h1⟩
+    · left; rw [h1]; exact touch_node _ _ _ _
+    · right; right; left; exact ⟨_, by rw [h1, touch_node]⟩
+    · right; right; right
+      rw [touch_node] at hfull h1
+      exact ⟨hfull, c, h, p, i, _, rfl, h1⟩
+
+
+theorem deliverLast_gstore (w : World) (s : Session) (h : PacketHdr) (p : Bytes) :
+    (w.deliverLast s h p).2.gstore = w.gstore := rfl
+
+theorem groupDataCheck_gstore {w : World} {s : Session} {h : PlainHdr}
+    (hne : (w.groupDataCheck s h).2.gstore ≠ w.gstore) :
+    ∃ fab gid, s.mode = .group fab gid ∧ h.isGroup = true ∧ h.isControl = false ∧ otherGroup h gid = false := by
+  unfold World.groupDataCheck at hne
+  split at hne
+  · rename_i hc
+    simp only [Bool.and_eq_true, Bool.not_eq_true'] at hc
+    cases hm : s.mode with
+    | group fab gid =>
+      rw [hm] at hne
+      simp only at hne
+      cases ho : otherGroup h gid with
+      | true => rw [ho] at hne; exact absurd rfl hne
+      | false => exact ⟨fab, gid, rfl, hc.1, hc.2, ho⟩
+    | plain => rw [hm] at hne; exact absurd rfl hne
+    | pase => rw [hm] at hne; exact absurd rfl hne
+    | case => rw [hm] at hne; exact absurd rfl hne
+  · exact absurd rfl hne
+
+/-- **The group counter store is consulted only after a group message authenticated**: if a
+delivery changes the store, the datagram either passed the group branch — it is authentic under a
+key the node holds for the addressed group — or it is a group data message that is authentic for
+a live group session of its sender and addresses that session's group. -/
+theorem gstore_only_if_group_authentic {E : Env} {now : Nat} {w : World} {from_ : Addr} {dg : Bytes}
+    (hb : BytesOK dg) (hne : (receive E now w from_ dg).2.gstore ≠ w.gstore) :
+    (∃ c h p f src, decodeStage E w.node from_ dg = .groupNew c h p ∧
+      GroupKeyFor E.fabs h.plain f c.gid c.key ∧ GroupAuthentic E.t c.key dg h.plain src) ∨
+    (∃ idx h p r fab gid, decodeStage E w.node from_ dg = .decoded idx h p ∧ w.node[idx]? = some r ∧
+      r.mode = .group fab gid ∧ h.plain.isGroup = true ∧ h.plain.isControl = false ∧
+      otherGroup h.plain gid = false ∧ AuthenticFor E.t r dg) := by
+  cases e : decodeStage E w.node from_ dg with
+  | groupNew c h p =>
+    obtain ⟨f, src, hk, _, _, _, ha⟩ := group_accept_only_authentic hb e
+    exact Or.inl ⟨c, h, p, f, src, rfl, hk, ha⟩
+  | rej x hh => exact absurd (reject_preserves_state e).2.2 hne
+  | decoded idx h p =>
+    right
+    unfold receive at hne
+    simp only [touch_node, e] at hne
+    cases ei : w.node[idx]? with
+    | none => rw [ei] at hne; exact absurd (touch_gstore _ _ _ _) hne
+    | some s =>
+      rw [ei] at hne
+      simp only at hne
+      have hg : ((w.touch now from_ dg).groupDataCheck s h.plain).2.gstore ≠ (w.touch now from_ dg).gstore := by
+        intro hx
+        apply hne
+        split
+        · simp only; rw [hx]; exact touch_gstore _ _ _ _
+        · rw [deliverAt_gstore, hx]; exact touch_gstore _ _ _ _
+      obtain ⟨fab, gid, hm, h1, h2, h3⟩ := groupDataCheck_gstore hg
+      have hr : s.isEncrypted = true := by simp [Session.isEncrypted, hm]
+      exact ⟨idx, h, p, s, fab, gid, rfl, ei, hm, h1, h2, h3, accept_only_authentic hb e ei hr⟩
+  | newPlain h p =>
+    exfalso; apply hne
+    unfold receive
+    simp only [touch_node, e]
+    cases ha : (w.touch now from_ dg).add now { addr := from_, peerNode := h.plain.srcNode } with
+    | some w1 =>
+      simp only
+      rw [deliverLast_gstore, (add_node ha).2]
+      exact touch_gstore _ _ _ _
+    | none => exact touch_gstore _ _ _ _
+
+theorem newPlain_unencrypted {E : Env} {n : Node} {from_ : Addr} {dg p : Bytes} {h : PacketHdr}
+    (e : decodeStage E n from_ dg = .newPlain h p) : h.plain.isEncrypted = false := by
+  unfold decodeStage at e
+  cases ed : PlainHdr.decode dg with
+  | error x => rw [ed] at e; cases e
+  | ok v =>
+    obtain ⟨hp, rest⟩ := v
+    rw [ed] at e
+    simp only at e
+    split at e
+    · split at e
+      · cases e
+      · split at e <;> cases e
+    · split at e
+      · rename_i hne
+        split at e
+        · cases e
+        · split at e
+          · simp only [Stage.newPlain.injEq] at e
+            obtain ⟨e1, _⟩ := e
+            subst e1
+            simpa using hne
+          · cases e
+      · split at e
+        · rcases groupStage_cases E from_ hp (dg.take (dg.length - rest.length)) rest with ⟨e', h', hg⟩ | ⟨c, p', pay, src, hg, _⟩
+          · rw [hg] at e; cases e
+          · rw [hg] at e; cases e
+        · cases e
+
+theorem deliverLast_ok {w w' : World} {s : Session} {h h' : PacketHdr} {p p' : Bytes} {idx : Nat} {nw : Bool}
+    (hd : w.deliverLast s h p = (.ok idx nw h' p', w')) : h' = h ∧ p' = p ∧ idx = w.node.length - 1 := by
+  unfold World.deliverLast at hd
+  simp only [Prod.mk.injEq] at hd
+  obtain ⟨h1, _⟩ := hd
+  split at h1
+  · cases h1
+  · simp only [Outcome.ok.injEq] at h1
+    exact ⟨h1.2.2.1.symm, h1.2.2.2.symm, h1.1.symm⟩
+
+/-- **Handed on only if authentic** — the statement at the level of `decode_packet`, for every way a
+message can reach an exchange: through an existing secure session (authentic for that session's
+receive key, complete header as associated data, the peer node id the session was established
+with), as the first message of a new *unsecured* session, or as a group message for which the node
+holds a key mapped to the addressed group, with the header's source node id in the nonce. -/
+theorem handed_on_only_if_authentic {E : Env} {now : Nat} {w w' : World} {from_ : Addr} {idx : Nat}
+    {dg p : Bytes} {h : PacketHdr} {nw : Bool} (hb : BytesOK dg)
+    (hrecv : receive E now w from_ dg = (.ok idx nw h p, w')) :
+    (∃ r, decodeStage E w.node from_ dg = .decoded idx h p ∧ w.node[idx]? = some r ∧
+        (r.isEncrypted = true → AuthenticFor E.t r dg)) ∨
+    (decodeStage E w.node from_ dg = .newPlain h p ∧ h.plain.isEncrypted = false) ∨
+    (∃ c f src, decodeStage E w.node from_ dg = .groupNew c h p ∧
+        GroupKeyFor E.fabs h.plain f c.gid c.key ∧ GroupAuthentic E.t c.key dg h.plain src) := by
+  unfold receive at hrecv
+  simp only [touch_node] at hrecv
+  cases e : decodeStage E w.node from_ dg with
+  | rej x hh => rw [e] at hrecv; simp at hrecv
+  | decoded i hh pp =>
+    rw [e] at hrecv
+    simp only at hrecv
+    cases ei : w.node[i]? with
+    | none => rw [ei] at hrecv; simp at hrecv
+    | some s =>
+      rw [ei] at hrecv
+      simp only at hrecv
+      split at hrecv
+      · simp at hrecv
+      · obtain ⟨h1, h2, h3⟩ := deliverAt_ok hrecv
+        subst h1 h2 h3
+        left
+        exact ⟨s, rfl, ei, fun hr => accept_only_authentic hb e ei hr⟩
+  | newPlain hh pp =>
+    rw [e] at hrecv
+    simp only at hrecv
+    right; left
+    have henc := newPlain_unencrypted e
+    cases ha : (w.touch now from_ dg).add now { addr := from_, peerNode := hh.plain.srcNode } with
+    | none => rw [ha] at hrecv; simp at hrecv
+    | some w1 =>
+      rw [ha] at hrecv
+      simp only at hrecv
+      obtain ⟨h1, h2, _⟩ := deliverLast_ok hrecv
+      subst h1 h2
+      exact ⟨rfl, henc⟩
+  | groupNew c hh pp =>
+    rw [e] at hrecv
+    simp only at hrecv
+    right; right
+    obtain ⟨f, src, hk, _, _, _, ha⟩ := group_accept_only_authentic hb e
+    have : h = hh ∧ p = pp := by
+      unfold World.groupAccept at hrecv
+      simp only at hrecv
+      split at hrecv
+      · simp at hrecv
+      · split at hrecv
+        · simp at hrecv
+        · obtain ⟨h1, h2, _⟩ := deliverLast_ok hrecv
+          exact ⟨h1, h2⟩
+    obtain ⟨h1, h2⟩ := this
+    subst h1 h2
+    exact ⟨c, f, src, rfl, hk, ha⟩
+
+/-- **A group data message matched to a live group session passes the same checks as one that
+creates a session**: it is handed on only if it addresses the session's group and its counter is
+new to the per-sender group counter store (no replay through the fresh window of an ephemeral
+session). -/
+theorem group_data_on_session_checked {E : Env} {now : Nat} {w w' : World} {from_ : Addr} {idx fab gid : Nat}
+    {dg p : Bytes} {h : PacketHdr} {nw : Bool} {s : Session}
+    (hst : decodeStage E w.node from_ dg = .decoded idx h p) (hs : w.node[idx]? = some s)
+    (hm : s.mode = .group fab gid) (hg : h.plain.isGroup = true) (hc : h.plain.isControl = false)
+    (hrecv : receive E now w from_ dg = (.ok idx nw h p, w')) :
+    otherGroup h.plain gid = false ∧ (w.gstore.postRecv fab (s.peerNode.getD 0) h.plain.ctr).2 = true := by
+  unfold receive at hrecv
+  simp only [touch_node, hst, hs] at hrecv
+  cases hcheck : ((w.touch now from_ dg).groupDataCheck s h.plain).1 with
+  | some x => rw [hcheck] at hrecv; simp at hrecv
+  | none =>
+    unfold World.groupDataCheck at hcheck
+    simp only [hg, hc, hm, Bool.not_false, Bool.and_self, if_true, touch_gstore] at hcheck
+    cases ho : otherGroup h.plain gid with
+    | true => rw [ho] at hcheck; simp at hcheck
+    | false =>
+      rw [ho] at hcheck
+      simp only [Bool.false_eq_true, if_false] at hcheck
+      refine ⟨rfl, ?_⟩
+      cases hf : (w.gstore.postRecv fab (s.peerNode.getD 0) h.plain.ctr).2 with
+      | true => rfl
+      | false => rw [hf] at hcheck; simp at hcheck
+
+/-- **The ephemeral group session is bound to (fabric, group id, source node)**: the session an
+accepted group message creates carries the fabric index and group id of the key that authenticated
+it, the header's source node id as peer, that operational key in both directions, the group
+session id, this node's id in that fabric, and the sender's address. -/
+theorem group_session_bound {E : Env} {now : Nat} {w w' : World} {from_ : Addr} {idx : Nat}
+    {dg p : Bytes} {h : PacketHdr} {nw : Bool} {c : Cand}
+    (hst : decodeStage E w.node from_ dg = .groupNew c h p)
+    (hrecv : receive E now w from_ dg = (.ok idx nw h p, w')) :
+    ∃ s', w'.node[idx]? = some s' ∧ s'.mode = .group c.fabIdx c.gid ∧ s'.peerNode = h.plain.srcNode ∧
+      s'.decKey = c.key ∧ s'.encKey = c.key ∧ s'.localSid = h.plain.sessId ∧ s'.localNode = c.nodeId ∧
+      s'.addr = from_ := by
+  have hfx := postRecv_fixed (groupSession from_ c h.plain) h
+  have hnode : (receive E now w from_ dg).2.node = w'.node := by rw [hrecv]
+  have hidx : idx + 1 = w'.node.length ∧ w'.node[idx]? = some ((groupSession from_ c h.plain).postRecv h).2 := by
+    unfold receive at hrecv
+    simp only [touch_node, hst] at hrecv
+    unfold World.groupAccept at hrecv
+    simp only at hrecv
+    split at hrecv
+    · simp at hrecv
+    · cases hm : ((w.touch now from_ dg).groupCtr c h.plain).1.makeRoom now (groupSession from_ c h.plain) with
+      | none => rw [hm] at hrecv; simp at hrecv
+      | some w1 =>
+        rw [hm] at hrecv
+        simp only at hrecv
+        obtain ⟨_, _, hi⟩ := deliverLast_ok hrecv
+        have hw' : w' = (w1.deliverLast (groupSession from_ c h.plain) h p).2 := by rw [hrecv]
+        have hx : ∃ xs, w1.node = xs ++ [groupSession from_ c h.plain] := by
+          rcases makeRoom_node hm with h1 | ⟨_, i, _, h1⟩
+          · exact ⟨_, h1⟩
+          · exact ⟨_, h1⟩
+        obtain ⟨xs, hx⟩ := hx
+        have hn := deliverLast_node w1 _ h p xs hx
+        rw [← hw'] at hn
+        rw [hn, hi, hx]
+        simp
+  obtain ⟨_, hi⟩ := hidx
+  refine ⟨_, hi, ?_⟩
+  simp only [fixedPart, Prod.mk.injEq] at hfx
+  obtain ⟨h1, h2, h3, h4, h5, h6, _, _, h9, _, _⟩ := hfx
+  refine ⟨by rw [h9]; rfl, by rw [h3]; rfl, by rw [h4]; rfl, by rw [h5]; rfl, by rw [h6]; rfl, by rw [h2]; rfl, by rw [h1]; rfl⟩
+
+theorem getElem?_swapRemove_append {α : Type} (l : List α) (i : Nat) (x : α) (j : Nat) (hj : j < (swapRemove l i).length) :
+    (swapRemove l i ++ [x])[j]? = (swapRemove l i)[j]? := by
+  rw [List.getElem?_append_left hj]
 
 /-- **A datagram that is not authentic for a secure session leaves that session untouched** —
 receive window, send counter, exchanges and keys — whatever else the datagram causes (rejection,
-delivery to another session, a new unsecured session). -/
-theorem inauthentic_preserves_session {t : Aead} {n : Node} {from_ i : Nat} {dg : Bytes} {r : Session}
-    (hb : BytesOK dg) (hi : n[i]? = some r) (hr : r.isEncrypted = true)
-    (hna : ¬ AuthenticFor t r dg) : (receive t n from_ dg).2[i]? = some r := by
-  rcases receive_shape t n from_ dg with h | ⟨idx, h, p, s, hd, hs, hn⟩ | ⟨s', hn⟩
+delivery to another session, a new session), as long as nothing is evicted: the only eviction
+`decode_packet` performs is for an *authenticated* group message on a full table. -/
+theorem inauthentic_preserves_session {E : Env} {now : Nat} {w : World} {from_ : Addr} {i : Nat}
+    {dg : Bytes} {r : Session} (hb : BytesOK dg) (hi : w.node[i]? = some r) (hr : r.isEncrypted = true)
+    (hna : ¬ AuthenticFor E.t r dg)
+    (hroom : w.node.length < MAX_SESSIONS ∨ ∀ c h p, decodeStage E w.node from_ dg ≠ .groupNew c h p) :
+    (receive E now w from_ dg).2.node[i]? = some r := by
+  rcases receive_shape E now w from_ dg with h | ⟨idx, h, p, s, hd, hs, hn⟩ | ⟨s', hn⟩ | ⟨hfull, c, h, p, j, s', hst, _⟩
   · rw [h]; exact hi
   · rw [hn]
     by_cases hii : idx = i
@@ -331,12 +937,16 @@ theorem inauthentic_preserves_session {t : Aead} {n : Node} {from_ i : Nat} {dg 
       have := List.getElem?_eq_some_iff.mp hi
       exact this.1)]
     exact hi
+  · rcases hroom with hlt | hng
+    · omega
+    · exact absurd hst (hng c h p)
 
-/-- **No delivery changes keys, identifiers, mode or the send counter of any session.** -/
-theorem receive_keeps_keys {t : Aead} {n : Node} {from_ i : Nat} {dg : Bytes} {r : Session}
-    (hi : n[i]? = some r) :
-    ∃ r', (receive t n from_ dg).2[i]? = some r' ∧ fixedPart r' = fixedPart r := by
-  rcases receive_shape t n from_ dg with h | ⟨idx, h, p, s, _, hs, hn⟩ | ⟨s', hn⟩
+/-- **No delivery changes keys, identifiers, mode or the send counter of any session** (same proviso). -/
+theorem receive_keeps_keys {E : Env} {now : Nat} {w : World} {from_ : Addr} {i : Nat} {dg : Bytes}
+    {r : Session} (hi : w.node[i]? = some r)
+    (hroom : w.node.length < MAX_SESSIONS ∨ ∀ c h p, decodeStage E w.node from_ dg ≠ .groupNew c h p) :
+    ∃ r', (receive E now w from_ dg).2.node[i]? = some r' ∧ fixedPart r' = fixedPart r := by
+  rcases receive_shape E now w from_ dg with h | ⟨idx, h, p, s, _, hs, hn⟩ | ⟨s', hn⟩ | ⟨hfull, c, h, p, j, s', hst, _⟩
   · exact ⟨r, by rw [h]; exact hi, rfl⟩
   · rw [hn]
     have hlt := (List.getElem?_eq_some_iff.mp hi).1
@@ -349,6 +959,9 @@ theorem receive_keeps_keys {t : Aead} {n : Node} {from_ i : Nat} {dg : Bytes} {r
     · exact ⟨r, by rw [List.getElem?_set_ne hii]; exact hi, rfl⟩
   · have hlt := (List.getElem?_eq_some_iff.mp hi).1
     exact ⟨r, by rw [hn, List.getElem?_append_left hlt]; exact hi, rfl⟩
+  · rcases hroom with hlt | hng
+    · omega
+    · exact absurd hst (hng c h p)
 
 /-- a duplicate (an authentic datagram whose counter was already received) changes nothing either -/
 theorem duplicate_preserves_state {s : Session} {h : PacketHdr}
@@ -357,45 +970,769 @@ theorem duplicate_preserves_state {s : Session} {h : PacketHdr}
   unfold Session.postRecv
   simp [hd]
 
-/-! ## Non-vacuity: a concrete mirrored pair -/
+
+/-! ## `handle_rx_packet`: the whole receive step -/
+
+def ParseErr (e : Err) : Prop := e = .Invalid ∨ e = .TruncatedPacket
+
+theorem takeLe_err {n : Nat} {bs : Bytes} {e : Err} (h : takeLe n bs = .error e) : e = .TruncatedPacket := by
+  unfold takeLe at h
+  split at h
+  · cases h
+  · injection h with h; exact h.symm
+
+theorem takeLe_bind_err {α : Type} {n : Nat} {bs : Bytes} {k : Nat × Bytes → Except Err α} {e : Err}
+    (h : (takeLe n bs >>= k) = .error e) : e = .TruncatedPacket ∨ ∃ v, k v = .error e := by
+  cases ht : takeLe n bs with
+  | error x =>
+    rw [ht] at h
+    left
+    have : x = e := by injection h
+    rw [← this]; exact takeLe_err ht
+  | ok v =>
+    rw [ht] at h
+    right; exact ⟨v, h⟩
+
+theorem PlainHdr.decode_err {bs : Bytes} {e : Err} (h : PlainHdr.decode bs = .error e) : ParseErr e := by
+  unfold PlainHdr.decode at h
+  rcases takeLe_bind_err h with h | ⟨⟨v, r1⟩, h⟩
+  · right; exact h
+  · simp only at h
+    by_cases hf : fromBits MSGFLAGS_ALL v = true
+    · simp only [hf, Bool.not_true, Bool.false_eq_true, if_false] at h
+      rcases takeLe_bind_err h with h | ⟨⟨v2, r2⟩, h⟩
+      · right; exact h
+      · simp only at h
+        rcases takeLe_bind_err h with h | ⟨⟨v3, r3⟩, h⟩
+        · right; exact h
+        · simp only at h
+          by_cases hsf : fromBits SECFLAGS_ALL v3 = true
+          · simp only [hsf, Bool.not_true, Bool.false_eq_true, if_false] at h
+            rcases takeLe_bind_err h with h | ⟨⟨v4, r4⟩, h⟩
+            · right; exact h
+            · simp only at h
+              rcases takeLe_bind_err h with h | ⟨⟨v5, r5⟩, h⟩
+              · right; exact h
+              · simp only at h
+                rcases takeLe_bind_err h with h | ⟨⟨v6, r6⟩, h⟩
+                · right; exact h
+                · cases h
+          · simp only [Bool.not_eq_true] at hsf
+            simp only [hsf, Bool.not_false, if_true] at h
+            left
+            injection h with h; exact h.symm
+    · simp only [Bool.not_eq_true] at hf
+      simp only [hf, Bool.not_false, if_true] at h
+      left
+      injection h with h; exact h.symm
+
+theorem ProtoHdr.decode_err {bs : Bytes} {e : Err} (h : ProtoHdr.decode bs = .error e) : ParseErr e := by
+  unfold ProtoHdr.decode at h
+  rcases takeLe_bind_err h with h | ⟨⟨v, r1⟩, h⟩
+  · right; exact h
+  · simp only at h
+    by_cases hf : fromBits EXCHFLAGS_ALL v = true
+    · simp only [hf, Bool.not_true, Bool.false_eq_true, if_false] at h
+      rcases takeLe_bind_err h with h | ⟨⟨v2, r2⟩, h⟩
+      · right; exact h
+      · simp only at h
+        rcases takeLe_bind_err h with h | ⟨⟨v3, r3⟩, h⟩
+        · right; exact h
+        · simp only at h
+          rcases takeLe_bind_err h with h | ⟨⟨v4, r4⟩, h⟩
+          · right; exact h
+          · simp only at h
+            rcases takeLe_bind_err h with h | ⟨⟨v5, r5⟩, h⟩
+            · right; exact h
+            · simp only at h
+              rcases takeLe_bind_err h with h | ⟨⟨v6, r6⟩, h⟩
+              · right; exact h
+              · cases h
+    · simp only [Bool.not_eq_true] at hf
+      simp only [hf, Bool.not_false, if_true] at h
+      left
+      injection h with h; exact h.symm
+
+/-- the error codes with which `decode_packet` can fail before `post_recv` -/
+def EarlyErr (e : Err) : Prop :=
+  e = .Invalid ∨ e = .TruncatedPacket ∨ e = .InvalidData ∨ e = .NoSession ∨ e = .BufferTooSmall ∨ e = .InvalidSignature
+
+theorem decodeRemaining_err {t : Aead} {key : Option Nat} {node : Nat} {a : Addr} {h : PlainHdr}
+    {aad rest : Bytes} {e : Err} (hd : SecureMsg.decodeRemaining t key node a h aad rest = .error e) :
+    e = .Invalid ∨ e = .TruncatedPacket ∨ e = .InvalidData := by
+  unfold SecureMsg.decodeRemaining at hd
+  split at hd
+  · split at hd
+    · rename_i pt _
+      cases hp : ProtoHdr.decode pt with
+      | ok v => rw [hp] at hd; cases hd
+      | error x =>
+        rw [hp] at hd
+        simp only [Except.map] at hd
+        injection hd with hd
+        subst hd
+        rcases ProtoHdr.decode_err hp with h | h
+        · left; exact h
+        · right; left; exact h
+    · injection hd with hd; right; right; exact hd.symm
+  · cases hp : ProtoHdr.decode rest with
+    | ok v => rw [hp] at hd; cases hd
+    | error x =>
+      rw [hp] at hd
+      simp only [Except.map] at hd
+      injection hd with hd
+      subst hd
+      rcases ProtoHdr.decode_err hp with h | h
+      · left; exact h
+      · right; left; exact h
+
+theorem groupStage_rej {E : Env} {from_ : Addr} {h : PlainHdr} {aad rest : Bytes} {e : Err} {hh : PacketHdr}
+    (hg : groupStage E from_ h aad rest = .rej e hh) : EarlyErr e ∧ hh.plain = h := by
+  unfold groupStage at hg
+  split at hg
+  · simp only [Stage.rej.injEq] at hg
+    obtain ⟨h1, h2⟩ := hg; subst h1 h2
+    exact ⟨Or.inr (Or.inr (Or.inl rfl)), rfl⟩
+  · split at hg
+    · simp only [Stage.rej.injEq] at hg
+      obtain ⟨h1, h2⟩ := hg; subst h1 h2
+      exact ⟨Or.inr (Or.inr (Or.inl rfl)), rfl⟩
+    · split at hg
+      · simp only [Stage.rej.injEq] at hg
+        obtain ⟨h1, h2⟩ := hg; subst h1 h2
+        exact ⟨Or.inr (Or.inr (Or.inr (Or.inr (Or.inl rfl)))), rfl⟩
+      · simp only at hg
+        split at hg
+        · cases hg
+        · split at hg
+          · simp only [Stage.rej.injEq] at hg
+            obtain ⟨h1, h2⟩ := hg; subst h1 h2
+            exact ⟨Or.inr (Or.inr (Or.inr (Or.inl rfl))), rfl⟩
+          · simp only [Stage.rej.injEq] at hg
+            obtain ⟨h1, h2⟩ := hg; subst h1 h2
+            exact ⟨Or.inr (Or.inr (Or.inr (Or.inr (Or.inr rfl)))), rfl⟩
+
+/-- a rejection before `post_recv` carries one of the early error codes; `NoSession` is only
+answered for a header that was parsed (and is the one left in the packet) -/
+theorem decodeStage_rej {E : Env} {n : Node} {from_ : Addr} {dg : Bytes} {e : Err} {hh : PacketHdr}
+    (hd : decodeStage E n from_ dg = .rej e hh) :
+    EarlyErr e ∧ (e = .NoSession → ∃ rest, PlainHdr.decode dg = .ok (hh.plain, rest)) := by
+  unfold decodeStage at hd
+  cases ed : PlainHdr.decode dg with
+  | error x =>
+    rw [ed] at hd
+    simp only [Stage.rej.injEq] at hd
+    obtain ⟨h1, _⟩ := hd
+    subst h1
+    rcases PlainHdr.decode_err ed with h | h
+    · exact ⟨Or.inl h, fun hx => by rw [h] at hx; cases hx⟩
+    · exact ⟨Or.inr (Or.inl h), fun hx => by rw [h] at hx; cases hx⟩
+  | ok v =>
+    obtain ⟨hp, rest⟩ := v
+    rw [ed] at hd
+    simp only at hd
+    split at hd
+    · split at hd
+      · simp only [Stage.rej.injEq] at hd
+        obtain ⟨h1, h2⟩ := hd; subst h1 h2
+        exact ⟨Or.inr (Or.inr (Or.inr (Or.inl rfl))), fun _ => ⟨rest, rfl⟩⟩
+      · split at hd
+        · rename_i er
+          simp only [Stage.rej.injEq] at hd
+          obtain ⟨h1, h2⟩ := hd; subst h1 h2
+          unfold Session.decodeRemaining at er
+          rcases decodeRemaining_err er with h | h | h
+          · exact ⟨Or.inl h, fun _ => ⟨rest, rfl⟩⟩
+          · exact ⟨Or.inr (Or.inl h), fun _ => ⟨rest, rfl⟩⟩
+          · exact ⟨Or.inr (Or.inr (Or.inl h)), fun _ => ⟨rest, rfl⟩⟩
+        · cases hd
+    · split at hd
+      · split at hd
+        · rename_i er
+          simp only [Stage.rej.injEq] at hd
+          obtain ⟨h1, h2⟩ := hd; subst h1 h2
+          rcases decodeRemaining_err er with h | h | h
+          · exact ⟨Or.inl h, fun _ => ⟨rest, rfl⟩⟩
+          · exact ⟨Or.inr (Or.inl h), fun _ => ⟨rest, rfl⟩⟩
+          · exact ⟨Or.inr (Or.inr (Or.inl h)), fun _ => ⟨rest, rfl⟩⟩
+        · split at hd
+          · cases hd
+          · simp only [Stage.rej.injEq] at hd
+            obtain ⟨h1, h2⟩ := hd; subst h1 h2
+            exact ⟨Or.inr (Or.inr (Or.inr (Or.inl rfl))), fun _ => ⟨rest, rfl⟩⟩
+      · split at hd
+        · obtain ⟨h1, h2⟩ := groupStage_rej hd
+          exact ⟨h1, fun _ => ⟨rest, by rw [h2]⟩⟩
+        · simp only [Stage.rej.injEq] at hd
+          obtain ⟨h1, h2⟩ := hd; subst h1 h2
+          exact ⟨Or.inr (Or.inr (Or.inr (Or.inl rfl))), fun _ => ⟨rest, rfl⟩⟩
+
+theorem writeUnsecured_ok {f : Addr} {h : PacketHdr} {p : Bytes} {r : Reply}
+    (hw : writeUnsecured f h p = .ok r) :
+    r.key = none ∧ r.to = f ∧ r.payload = p ∧ h.plain.isEncrypted = false := by
+  unfold writeUnsecured at hw
+  split at hw
+  · cases hw
+  · rename_i hc
+    injection hw with hw
+    subst hw
+    refine ⟨rfl, rfl, rfl, ?_⟩
+    simp only [Bool.or_eq_true, not_or, Bool.not_eq_true] at hc
+    exact hc.1.1
+
+/-- what `handle_rx_packet` does with an early rejection: nothing, or — `NoSession` for a secured
+unicast header — one unsecured `SessionNotFound` report to the sender's address -/
+theorem react_early {now x : Nat} {from_ : Addr} {hh : PacketHdr} {e : Err} {w : World} (he : EarlyErr e) :
+    (react now x from_ hh (.err e) w).2 = w ∧ (react now x from_ hh (.err e) w).1.deliver = false ∧
+    ((react now x from_ hh (.err e) w).1.replies = [] ∨
+      ∃ r, (react now x from_ hh (.err e) w).1.replies = [r] ∧ r.key = none ∧ r.to = from_ ∧
+        r.payload = statusReport GC_FAILURE SC_SESSION_NOT_FOUND [] ∧ e = .NoSession ∧
+        hh.plain.isEncrypted = true ∧ hh.plain.isGroup = false) := by
+  rcases he with h | h | h | h | h | h <;> subst h
+  · exact ⟨rfl, rfl, Or.inl rfl⟩
+  · exact ⟨rfl, rfl, Or.inl rfl⟩
+  · exact ⟨rfl, rfl, Or.inl rfl⟩
+  · unfold react
+    simp only
+    split
+    · exact ⟨rfl, rfl, Or.inl rfl⟩
+    · rename_i henc
+      cases hw : writeUnsecured from_
+          { plain := { hh.plain with sessId := 0, flags := hh.plain.flags ||| F_SRC, src := 0 },
+            proto := ((hh.proto.unsetReliable).clearAck).setMeta Consts.protoIdSecureChannel Consts.opStatusReport false }
+          (statusReport GC_FAILURE SC_SESSION_NOT_FOUND []) with
+      | error x => exact ⟨rfl, rfl, Or.inl rfl⟩
+      | ok r =>
+        obtain ⟨h1, h2, h3, h4⟩ := writeUnsecured_ok hw
+        refine ⟨rfl, rfl, Or.inr ⟨r, rfl, h1, h2, h3, trivial, by simpa using henc, ?_⟩⟩
+        simpa [PlainHdr.isEncrypted, PlainHdr.isGroup] using h4
+  · exact ⟨rfl, rfl, Or.inl rfl⟩
+  · exact ⟨rfl, rfl, Or.inl rfl⟩
+
+/-- **After a datagram that `decode_packet` rejects before `post_recv`, the whole receive step
+(`handle_rx_packet`) leaves the session table and the group counter store unchanged, hands nothing
+on, and sends at most one datagram: an unsecured `SessionNotFound` report to the sender's address
+(for a secured unicast header that matches no session).** -/
+theorem handleRx_rejected {E : Env} {now x : Nat} {w : World} {from_ : Addr} {dg : Bytes} {e : Err}
+    {hh : PacketHdr} (hd : decodeStage E w.node from_ dg = .rej e hh) :
+    (handleRx E now x w from_ dg).2.node = w.node ∧ (handleRx E now x w from_ dg).2.gstore = w.gstore ∧
+    (handleRx E now x w from_ dg).1.deliver = false ∧
+    ((handleRx E now x w from_ dg).1.replies = [] ∨
+      ∃ r, (handleRx E now x w from_ dg).1.replies = [r] ∧ r.key = none ∧ r.to = from_ ∧
+        r.payload = statusReport GC_FAILURE SC_SESSION_NOT_FOUND [] ∧ e = .NoSession ∧
+        hh.plain.isEncrypted = true ∧ hh.plain.isGroup = false) := by
+  obtain ⟨he, _⟩ := decodeStage_rej hd
+  have hr : receive E now w from_ dg = (.err e, w.touch now from_ dg) := by
+    unfold receive
+    simp only [touch_node, hd]
+  unfold handleRx
+  simp only [touch_node, hd, hr, Stage.hdr]
+  obtain ⟨h1, h2, h3⟩ := react_early (now := now) (x := x) (from_ := from_) (hh := hh) (w := w.touch now from_ dg) he
+  rw [h1]
+  exact ⟨touch_node _ _ _ _, touch_gstore _ _ _ _, h2, h3⟩
+
+theorem findRx_isForRx {n : Node} {from_ : Addr} {h : PlainHdr} {i : Nat} (hf : findRx n from_ h = some i) :
+    ∃ s, n[i]? = some s ∧ s.isForRx from_ h = true := by
+  unfold findRx at hf
+  have := List.findIdx?_eq_some_iff_getElem.mp hf
+  obtain ⟨hlt, hp, _⟩ := this
+  exact ⟨n[i], by simp [hlt], hp⟩
+
+/-- **A secured datagram that is authentic for nothing is rejected early**: if the header claims a
+secure session or a group (`is_encrypted`), the datagram is `AuthenticFor` no secure session of the
+table and `GroupAuthentic` under no key — then `decode_packet` rejects it before `post_recv`, so by
+`handleRx_rejected` nothing at all changes and at most `SessionNotFound` is sent. -/
+theorem inauthentic_is_rejected {E : Env} {n : Node} {from_ : Addr} {dg : Bytes} (hb : BytesOK dg)
+    (hsec : ∀ h rest, PlainHdr.decode dg = .ok (h, rest) → h.isEncrypted = true)
+    (hna : ∀ r ∈ n, r.isEncrypted = true → ¬ AuthenticFor E.t r dg)
+    (hng : ∀ key h src, ¬ GroupAuthentic E.t key dg h src) :
+    ∃ e hh, decodeStage E n from_ dg = .rej e hh := by
+  cases hd : decodeStage E n from_ dg with
+  | rej e hh => exact ⟨e, hh, rfl⟩
+  | decoded idx h p =>
+    exfalso
+    obtain ⟨rest, r, hdg, hwf, hf, hi, _⟩ := decoded_inv hb hd
+    obtain ⟨s, hs, hfor⟩ := findRx_isForRx hf
+    rw [hi] at hs
+    injection hs with hs
+    subst hs
+    have hdec : PlainHdr.decode dg = .ok (h.plain, rest) := by
+      rw [hdg]; exact PlainHdr.decode_encode _ hwf _
+    have henc := hsec _ _ hdec
+    have hre : r.isEncrypted = true := by
+      unfold Session.isForRx at hfor
+      simp only [Bool.and_eq_true, beq_iff_eq] at hfor
+      rw [hfor.1.2, henc]
+    exact hna r (List.mem_of_getElem? hi) hre (accept_only_authentic hb hd hi hre)
+  | newPlain h p =>
+    exfalso
+    have h0 := newPlain_unencrypted hd
+    unfold decodeStage at hd
+    cases ed : PlainHdr.decode dg with
+    | error x => rw [ed] at hd; cases hd
+    | ok v =>
+      obtain ⟨hp, rest⟩ := v
+      have henc := hsec _ _ ed
+      rw [ed] at hd
+      simp only at hd
+      split at hd
+      · split at hd
+        · cases hd
+        · split at hd <;> cases hd
+      · rw [henc] at hd
+        simp only [Bool.not_true, Bool.false_eq_true, if_false] at hd
+        split at hd
+        · rcases groupStage_cases E from_ hp (dg.take (dg.length - rest.length)) rest with ⟨e', h', hg⟩ | ⟨c, p', pay, src, hg, _⟩
+          · rw [hg] at hd; cases hd
+          · rw [hg] at hd; cases hd
+        · cases hd
+  | groupNew c h p =>
+    exfalso
+    obtain ⟨f, src, _, _, _, _, ha⟩ := group_accept_only_authentic hb hd
+    exact hng _ _ _ ha
+
+/-- The per-session statement for the whole receive step (proved below: `C03_rx_full_holds`): whatever a datagram
+causes in `handle_rx_packet` (ACK, `CloseSession`, removal of the session it *is* authentic for,
+a new session), a secure session for which it is not authentic is still in the table, unchanged —
+unless the table is full and the datagram is an authentic group message or an unsecured session
+request (the two cases in which the least recently used idle session is evicted). -/
+def C03_rx_full : Prop :=
+  ∀ (E : Env) (now x : Nat) (w : World) (from_ : Addr) (dg : Bytes) (r : Session),
+    BytesOK dg → r ∈ w.node → r.isEncrypted = true → ¬ AuthenticFor E.t r dg →
+    (w.node.length < MAX_SESSIONS ∨
+      ((∀ c h p, decodeStage E w.node from_ dg ≠ .groupNew c h p) ∧
+       (∀ h p, decodeStage E w.node from_ dg ≠ .newPlain h p))) →
+    r ∈ (handleRx E now x w from_ dg).2.node
+
+/-! ### proof of `C03_rx_full` -/
+
+theorem isForRx_fixed {a b : Session} (h : fixedPart a = fixedPart b) (f : Addr) (hd : PlainHdr) :
+    a.isForRx f hd = b.isForRx f hd := by
+  simp only [fixedPart, Prod.mk.injEq] at h
+  obtain ⟨h1, h2, h3, _, _, h6, _, _, h9, _, h11⟩ := h
+  unfold Session.isForRx Session.isEncrypted
+  rw [h1, h2, h3, h6, h9, h11]
+
+theorem findIdx?_set_congr {α : Type} (p : α → Bool) (l : List α) (i : Nat) (x y : α)
+    (hi : l[i]? = some x) (hp : p y = p x) : (l.set i y).findIdx? p = l.findIdx? p := by
+  induction l generalizing i with
+  | nil => rfl
+  | cons a as ih =>
+    cases i with
+    | zero =>
+      simp only [List.getElem?_cons_zero, Option.some.injEq] at hi
+      subst hi
+      simp only [List.set_cons_zero, List.findIdx?_cons, hp]
+    | succ k =>
+      simp only [List.getElem?_cons_succ] at hi
+      simp only [List.set_cons_succ, List.findIdx?_cons, ih k hi]
+
+theorem findRx_set {n : Node} {idx : Nat} {s s' : Session} (f : Addr) (hd : PlainHdr)
+    (hi : n[idx]? = some s) (hf : fixedPart s' = fixedPart s) :
+    findRx (n.set idx s') f hd = findRx n f hd := by
+  unfold findRx
+  exact findIdx?_set_congr _ n idx s s' hi (isForRx_fixed hf f hd)
+
+theorem mem_swapRemove {α : Type} {l : List α} {i j : Nat} {x : α} (hi : l[i]? = some x) (hij : i ≠ j)
+    (hj : j < l.length) : x ∈ swapRemove l j := by
+  unfold swapRemove
+  have hil : i < l.length := (List.getElem?_eq_some_iff.mp hi).1
+  cases hl : l.getLast? with
+  | none =>
+    have : l = [] := List.getLast?_eq_none_iff.mp hl
+    subst this
+    simp at hil
+  | some last =>
+    simp only
+    have hx : l[i] = x := (List.getElem?_eq_some_iff.mp hi).2
+    split
+    · rename_i hlast
+      have hlt : i < l.length - 1 := by omega
+      rw [List.mem_iff_getElem]
+      exact ⟨i, by simp; omega, by simp [hx]⟩
+    · rename_i hnl
+      by_cases hilast : i = l.length - 1
+      · -- x is the last element; it was moved to position j
+        have hxl : x = last := by
+          have := List.getLast?_eq_getElem? (l := l)
+          rw [this] at hl
+          rw [← hilast, hi] at hl
+          injection hl
+        rw [List.mem_iff_getElem]
+        refine ⟨j, by simp; omega, ?_⟩
+        simp [hxl]
+      · rw [List.mem_iff_getElem]
+        refine ⟨i, by simp; omega, ?_⟩
+        simp [List.getElem_set, hx]
+        intro h; exact absurd h.symm hij
+
+theorem exchPostRecv_err {e : Exch} {c : Nat} {p : ProtoHdr} {x : Err} (h : e.postRecv c p = .error x) :
+    x = .Duplicate := by
+  unfold Exch.postRecv at h
+  simp only at h
+  split at h
+  · rename_i y hy
+    injection h with h
+    subst h
+    split at hy
+    · split at hy
+      · injection hy with hy; exact hy.symm
+      · cases hy
+    · cases hy
+  · cases h
+
+/-- `post_recv` fails only with these codes — never `NoSpaceSessions` -/
+theorem postRecv_err {s : Session} {h : PacketHdr} {x : Err} (hx : (s.postRecv h).1 = .error x) :
+    x = .Duplicate ∨ x = .NoExchange ∨ x = .NoSession ∨ x = .NoSpaceExchanges := by
+  unfold Session.postRecv at hx
+  simp only at hx
+  split at hx
+  · injection hx with hx; left; exact hx.symm
+  · split at hx
+    · split at hx
+      · injection hx with hx; right; left; exact hx.symm
+      · split at hx
+        · rename_i y hy
+          injection hx with hx
+          subst hx
+          left; exact exchPostRecv_err hy
+        · cases hx
+    · split at hx
+      · injection hx with hx; right; left; exact hx.symm
+      · split at hx
+        · injection hx with hx; right; right; left; exact hx.symm
+        · split at hx
+          · split at hx
+            · rename_i y hy
+              injection hx with hx
+              subst hx
+              left; exact exchPostRecv_err hy
+            · cases hx
+          · injection hx with hx; right; right; right; exact hx.symm
+
+
+/-- the reactions of `handle_rx_packet` keep a session in the table as long as the session they
+address (found by the second lookup) is another one and nothing is evicted -/
+theorem react_keeps {now x : Nat} {from_ : Addr} {h : PacketHdr} {o : Outcome} {w : World} {i : Nat} {r : Session}
+    (hi : w.node[i]? = some r)
+    (hj : ∀ j, findRx w.node from_ h.plain = some j → j ≠ i)
+    (hoh : ∀ idx nw hh p, o = .ok idx nw hh p → hh = h)
+    (hne : o = .err .NoSpaceSessions → h.plain.isEncrypted = true) :
+    r ∈ (react now x from_ h o w).2.node := by
+  have hmem : r ∈ w.node := List.mem_of_getElem? hi
+  have hrem : ∀ j, findRx w.node from_ h.plain = some j → r ∈ (w.remove j).node := by
+    intro j hf
+    obtain ⟨sj, hsj, _⟩ := findRx_isForRx hf
+    have hjl : j < w.node.length := (List.getElem?_eq_some_iff.mp hsj).1
+    exact mem_swapRemove hi (fun hx => hj j hf hx.symm) hjl
+  cases o with
+  | err e =>
+    cases e with
+    | Duplicate =>
+      unfold react
+      simp only
+      split
+      · exact hmem
+      · split
+        · cases hf : findRx w.node from_ h.plain with
+          | none => exact hmem
+          | some j =>
+            simp only
+            cases hs : w.node[j]? with
+            | none => exact hmem
+            | some sj =>
+              simp only
+              split
+              · exact hmem
+              · rename_i rep sj' _
+                simp only
+                have : (w.node.set j sj')[i]? = some r := by
+                  rw [List.getElem?_set_ne (hj j hf)]; exact hi
+                exact List.mem_of_getElem? this
+        · exact hmem
+    | NoSpaceSessions =>
+      unfold react
+      simp only
+      have := hne rfl
+      simp only [this, Bool.not_true, Bool.false_and, Bool.false_eq_true, if_false]
+      exact hmem
+    | NoSpaceExchanges =>
+      unfold react
+      simp only
+      cases hf : findRx w.node from_ h.plain with
+      | none => exact hmem
+      | some j =>
+        simp only
+        cases hs : w.node[j]? with
+        | none => exact hmem
+        | some sj =>
+          simp only
+          split <;> exact hrem j hf
+    | NoSession =>
+      unfold react
+      simp only
+      split
+      · exact hmem
+      · split <;> exact hmem
+    | Invalid => exact hmem
+    | TruncatedPacket => exact hmem
+    | InvalidData => exact hmem
+    | NoExchange => exact hmem
+    | BufferTooSmall => exact hmem
+    | InvalidState => exact hmem
+    | InvalidSignature => exact hmem
+  | ok idx nw hh p =>
+    have := hoh idx nw hh p rfl
+    subst this
+    unfold react
+    simp only
+    split
+    · exact hmem
+    · split
+      · cases hf : findRx w.node from_ hh.plain with
+        | none => exact hmem
+        | some j => exact hrem j hf
+      · exact hmem
+
+
+theorem receive_decoded {E : Env} {now : Nat} {w : World} {from_ : Addr} {dg p : Bytes} {idx : Nat}
+    {hh : PacketHdr} {s : Session} (hst : decodeStage E w.node from_ dg = .decoded idx hh p)
+    (hs : w.node[idx]? = some s) :
+    ((receive E now w from_ dg).2.node = w.node ∨
+      (receive E now w from_ dg).2.node = w.node.set idx (s.postRecv hh).2) ∧
+    (∀ i nw h' p', (receive E now w from_ dg).1 = .ok i nw h' p' → h' = hh) ∧
+    (receive E now w from_ dg).1 ≠ .err .NoSpaceSessions := by
+  unfold receive
+  simp only [touch_node, hst, hs]
+  cases hc : ((w.touch now from_ dg).groupDataCheck s hh.plain).1 with
+  | some e =>
+    simp only
+    refine ⟨Or.inl (by rw [groupDataCheck_node, touch_node]), ⟨(fun _ _ _ _ hx => by cases hx), ?_⟩⟩
+    intro hx
+    injection hx with hx
+    subst hx
+    unfold World.groupDataCheck at hc
+    split at hc
+    · split at hc
+      · split at hc
+        · cases hc
+        · simp only at hc
+          split at hc <;> cases hc
+      · cases hc
+    · cases hc
+  | none =>
+    simp only
+    refine ⟨Or.inr (by rw [deliverAt_node, groupDataCheck_node, touch_node]), ⟨?_, ?_⟩⟩
+    · intro i nw h' p' hx
+      unfold World.deliverAt at hx
+      simp only at hx
+      split at hx
+      · cases hx
+      · injection hx with _ _ h3 _; exact h3.symm
+    · intro hx
+      unfold World.deliverAt at hx
+      simp only at hx
+      split at hx
+      · rename_i e he
+        injection hx with hx
+        subst hx
+        rcases postRecv_err he with h | h | h | h <;> cases h
+      · cases hx
+
+theorem deliverLast_out {w : World} {s : Session} {hh : PacketHdr} {p : Bytes} :
+    (∀ i nw h' p', (w.deliverLast s hh p).1 = .ok i nw h' p' → h' = hh) ∧
+    (w.deliverLast s hh p).1 ≠ .err .NoSpaceSessions := by
+  unfold World.deliverLast
+  simp only
+  constructor
+  · intro i nw h' p' hx
+    split at hx
+    · cases hx
+    · injection hx with _ _ h3 _; exact h3.symm
+  · intro hx
+    split at hx
+    · rename_i e he
+      injection hx with hx
+      subst hx
+      rcases postRecv_err he with h | h | h | h <;> cases h
+    · cases hx
+
+theorem findRx_append_none {n : Node} {s' : Session} {f : Addr} {hd : PlainHdr} {j : Nat}
+    (hn : findRx n f hd = none) (hj : findRx (n ++ [s']) f hd = some j) : n.length ≤ j := by
+  unfold findRx at hn hj
+  rw [List.findIdx?_append, hn] at hj
+  simp only [Option.none_or, Option.map_eq_some_iff] at hj
+  obtain ⟨k, _, hk⟩ := hj
+  omega
+
+/-- **The whole receive step leaves every secure session for which the datagram is not authentic in
+the table, unchanged** — whatever `handle_rx_packet` does (stand-alone ACK, `CloseSession`, removal of
+the session the datagram *is* authentic for, a new session, `SessionNotFound`) — unless the table is
+full and the datagram is an authentic group message or an unsecured session request (eviction of
+the least recently used idle session). -/
+theorem handleRx_keeps_inauthentic_session {E : Env} {now x : Nat} {w : World} {from_ : Addr} {dg : Bytes}
+    {i : Nat} {r : Session} (hb : BytesOK dg) (hi : w.node[i]? = some r) (hr : r.isEncrypted = true)
+    (hna : ¬ AuthenticFor E.t r dg)
+    (hroom : w.node.length < MAX_SESSIONS ∨
+      ((∀ c h p, decodeStage E w.node from_ dg ≠ .groupNew c h p) ∧
+       (∀ h p, decodeStage E w.node from_ dg ≠ .newPlain h p))) :
+    r ∈ (handleRx E now x w from_ dg).2.node := by
+  have hil : i < w.node.length := (List.getElem?_eq_some_iff.mp hi).1
+  cases hst : decodeStage E w.node from_ dg with
+  | rej e hh =>
+    rw [(handleRx_rejected (now := now) (x := x) hst).1]
+    exact List.mem_of_getElem? hi
+  | decoded idx hh p =>
+    obtain ⟨rest, s, _, _, hf, hs, _⟩ := decoded_inv hb hst
+    have hne : idx ≠ i := by
+      intro hx
+      subst hx
+      rw [hs] at hi
+      injection hi with hi
+      subst hi
+      exact hna (accept_only_authentic hb hst hs hr)
+    obtain ⟨hnode, hok, hnss⟩ := receive_decoded (now := now) hst hs
+    unfold handleRx
+    simp only [touch_node, hst, Stage.hdr]
+    have hi1 : (receive E now w from_ dg).2.node[i]? = some r := by
+      rcases hnode with h | h
+      · rw [h]; exact hi
+      · rw [h, List.getElem?_set_ne hne]; exact hi
+    have hf1 : findRx (receive E now w from_ dg).2.node from_ hh.plain = some idx := by
+      rcases hnode with h | h
+      · rw [h]; exact hf
+      · rw [h, findRx_set from_ hh.plain hs (postRecv_fixed s hh)]; exact hf
+    exact react_keeps hi1 (fun j hj => by rw [hf1] at hj; injection hj with hj; omega)
+      (fun a b c d hx => hok a b c d hx) (fun hx => absurd hx hnss)
+  | newPlain hh p =>
+    have hlt : w.node.length < MAX_SESSIONS := by
+      rcases hroom with h | ⟨_, h⟩
+      · exact h
+      · exact absurd hst (h hh p)
+    have henc := newPlain_unencrypted hst
+    unfold handleRx
+    simp only [touch_node, hst, Stage.hdr]
+    have hrec : ∃ w1, (w.touch now from_ dg).add now { addr := from_, peerNode := hh.plain.srcNode } = some w1 ∧
+        receive E now w from_ dg = w1.deliverLast { addr := from_, peerNode := hh.plain.srcNode } hh p := by
+      unfold receive
+      simp only [touch_node, hst]
+      cases ha : (w.touch now from_ dg).add now { addr := from_, peerNode := hh.plain.srcNode } with
+      | none => have := add_none_full ha; rw [touch_node] at this; omega
+      | some w1 => exact ⟨w1, rfl, rfl⟩
+    obtain ⟨w1, ha, hrec⟩ := hrec
+    have hn1 := (add_node ha).1
+    rw [touch_node] at hn1
+    have hnode := deliverLast_node w1 _ hh p _ hn1
+    obtain ⟨hok, hnss⟩ := deliverLast_out (w := w1) (s := { addr := from_, peerNode := hh.plain.srcNode }) (hh := hh) (p := p)
+    rw [hrec]
+    have hi1 : (w1.deliverLast { addr := from_, peerNode := hh.plain.srcNode } hh p).2.node[i]? = some r := by
+      rw [hnode, List.getElem?_append_left hil]; exact hi
+    refine react_keeps hi1 ?_ (fun a b c d hx => hok a b c d hx) (fun hx => absurd hx hnss)
+    intro j hj hji
+    subst hji
+    obtain ⟨sj, hsj, hfor⟩ := findRx_isForRx hj
+    rw [hi1] at hsj
+    injection hsj with hsj
+    subst hsj
+    unfold Session.isForRx at hfor
+    simp only [Bool.and_eq_true, beq_iff_eq] at hfor
+    rw [hfor.1.2, henc] at hr
+    cases hr
+  | groupNew c hh p =>
+    have hlt : w.node.length < MAX_SESSIONS := by
+      rcases hroom with h | ⟨h, _⟩
+      · exact h
+      · exact absurd hst (h c hh p)
+    obtain ⟨rest, src, _, _, hfn, hgrp, _, _, _⟩ := groupNew_inv hb hst
+    have henc : hh.plain.isEncrypted = true := by simp [PlainHdr.isEncrypted, hgrp]
+    unfold handleRx
+    simp only [touch_node, hst, Stage.hdr]
+    have hrec : receive E now w from_ dg = (w.touch now from_ dg).groupAccept now from_ c hh p := by
+      unfold receive
+      simp only [touch_node, hst]
+    rw [hrec]
+    have hok : ∀ a nw h' p', ((w.touch now from_ dg).groupAccept now from_ c hh p).1 = .ok a nw h' p' → h' = hh := by
+      intro a nw h' p' hx
+      unfold World.groupAccept at hx
+      simp only at hx
+      split at hx
+      · cases hx
+      · split at hx
+        · cases hx
+        · exact deliverLast_out.1 a nw h' p' hx
+    rcases groupAccept_node (w.touch now from_ dg) now from_ c hh p with h1 | h1 | ⟨hfull, _⟩
+    · rw [touch_node] at h1
+      refine react_keeps (by rw [h1]; exact hi) ?_ hok (fun _ => henc)
+      intro j hj
+      rw [h1, hfn] at hj
+      cases hj
+    · rw [touch_node] at h1
+      refine react_keeps (by rw [h1, List.getElem?_append_left hil]; exact hi) ?_ hok (fun _ => henc)
+      intro j hj
+      rw [h1] at hj
+      have := findRx_append_none hfn hj
+      omega
+    · rw [touch_node] at hfull
+      omega
+
+/-- `C03_rx_full` holds. -/
+theorem C03_rx_full_holds : C03_rx_full := by
+  intro E now x w from_ dg r hb hm hr hna hroom
+  obtain ⟨i, hi⟩ := List.getElem?_of_mem hm
+  exact handleRx_keeps_inauthentic_session hb hi hr hna hroom
+
+
+/-! ## Non-vacuity: concrete instances of every implication -/
 namespace Ex
-def s : Session := { addr := 9, localNode := 5, peerNode := some 7, encKey := 1, decKey := 2, localSid := 10, peerSid := 20, mode := .case }
-def r : Session := { addr := 1, localNode := 7, peerNode := some 5, decKey := 1, encKey := 2, localSid := 20, peerSid := 10, mode := .case }
-def u : Session := { addr := 1 }
+def a1 : Addr := .udp (.v6 1) 1001
+def a9 : Addr := .udp (.v6 1) 1009
+def s : Session := { addr := a9, localNode := 5, peerNode := some 7, encKey := 2, decKey := 4, localSid := 10, peerSid := 20, mode := .case }
+def r : Session := { addr := a1, localNode := 7, peerNode := some 5, decKey := 2, encKey := 4, localSid := 20, peerSid := 10, mode := .case }
+def u : Session := { addr := a1 }
 def h : PacketHdr := { plain := { sessId := 20, ctr := 3 }, proto := { exchFlags := 5, opcode := 2, exchId := 77, protoId := 1 } }
 def h' : PlainHdr := { sessId := 20, ctr := 4 }
 def h0 : PlainHdr := { sessId := 0, ctr := 3 }
 def pay : Bytes := [1, 2, 3]
 def ct : Bytes := [5, 2, 77, 0, 1, 0, 200, 201, 202]
 def t : Aead := [mkRec s h pay ct]
+def E : Env := { t := t }
 
 theorem hplain : h.plain.WF := ⟨by decide, by decide, by decide, by decide, by decide, by decide⟩
 theorem hproto : h.proto.WF := ⟨by decide, by decide, by decide, by decide, by decide, by decide⟩
 
-/-- the hypotheses of `roundtrip` hold for the pair, and its conclusion computes -/
-example : decodeStage t [r] 1 (s.encode h pay ct).1 = .decoded 0 h pay :=
-  roundtrip [] [r] 1 0 s r h pay ct (by decide) (by decide) (by decide) (by decide) hplain hproto (by decide) (by decide)
+/-- the hypotheses of `roundtrip_udp` hold for the pair, and its conclusion computes -/
+example : decodeStage E [r] a1 (s.encode h pay ct).1 = .decoded 0 h pay :=
+  roundtrip_udp {} [r] a1 0 s r h pay ct (.v6 1) 1001 rfl (by decide) (by decide) (by decide) (by decide) hplain hproto (by decide) (by decide)
 
-example : receive t [r] 1 (s.encode h pay ct).1 = (.ok 0 true h pay, [(r.postRecv h).2]) := by decide
+/-- over TCP the R and A flags are lowered on receipt (`roundtrip`), a header without them is unchanged (`roundtrip_reliable`) -/
+example : decodeStage E [{ r with addr := .tcp (.v6 1) 1001 }] (.tcp (.v6 1) 1001) (s.encode h pay ct).1
+    = .decoded 0 { h with proto := { h.proto with exchFlags := 1 } } pay := by decide
+
+example : (receive E 0 { node := [r], lru := [0] } a1 (s.encode h pay ct).1).1 = .ok 0 true h pay := by decide
 
 /-- `accept_only_authentic` / `handed_on_only_if_authentic`: their hypotheses are met by that delivery -/
 example : AuthenticFor t r (s.encode h pay ct).1 :=
-  accept_only_authentic (n := [r]) (from_ := 1) (idx := 0) (h := h) (p := pay) (by decide) (by decide) (by decide) (by decide)
+  accept_only_authentic (E := E) (n := [r]) (from_ := a1) (idx := 0) (h := h) (p := pay) (by decide) (by decide) (by decide) (by decide)
 
 /-- the counter bumped in the header (`h'`), same cipher text: rejected at decryption -/
-example : decodeStage t [r] 1 (h'.encode ++ ct) = .rej .InvalidData := by decide
+example : decodeStage E [r] a1 (h'.encode ++ ct) = .rej .InvalidData { plain := h' } := by decide
 /-- `aad_covers_header`: its hypotheses are satisfiable (here the forged header addresses an unsecured
 session, which does take the bytes — and the theorem's conclusion, *not a secure session*, holds) -/
-example : ∃ idx hh p, decodeStage t [r, u] 1 (h0.encode ++ ct) = .decoded idx hh p ∧ [r, u][idx]? = some u :=
+example : ∃ idx hh p, decodeStage E [r, u] a1 (h0.encode ++ ct) = .decoded idx hh p ∧ [r, u][idx]? = some u :=
   ⟨1, { plain := h0, proto := { exchFlags := 5, opcode := 2, exchId := 77, protoId := 1 } }, [200, 201, 202],
     by decide, by decide⟩
 /-- the reflected datagram (what `r` itself would send) is not accepted by `r` -/
-example : decodeStage [mkRec r h pay ct] [r] 1 (r.encode h pay ct).1 = .rej .InvalidData := by decide
+example : decodeStage { t := [mkRec r h pay ct] } [r] a1 (r.encode h pay ct).1 = .rej .InvalidData { plain := h.plain } := by decide
 /-- another source node id: rejected -/
-example : decodeStage [mkRec { s with localNode := 6 } h pay ct] [r] 1 (s.encode h pay ct).1 = .rej .InvalidData := by decide
+example : decodeStage { t := [mkRec { s with localNode := 6 } h pay ct] } [r] a1 (s.encode h pay ct).1 = .rej .InvalidData { plain := h.plain } := by decide
+/-- the same session reached over another transport (same IP and port): no session -/
+example : decodeStage E [r] (.tcp (.v6 1) 1001) (s.encode h pay ct).1 = .rej .NoSession { plain := h.plain } := by decide
+/-- IPv4 and IPv4-mapped IPv6 are the same peer (`Address::canonical`) -/
+example : decodeStage E [{ r with addr := .udp (.v4 2130706433) 1000 }] (.udp (.v6 281472812449793) 1000) (s.encode h pay ct).1
+    = .decoded 0 h pay := by decide
 /-- `inauthentic_preserves_session` / `reject_preserves_state`: a datagram that is not authentic exists -/
 example : ¬ AuthenticFor [] r (s.encode h pay ct).1 := by rintro ⟨_, hm, _⟩; cases hm
-example : receive [] [r] 1 (s.encode h pay ct).1 = (.err .InvalidData, [r]) := by decide
+example : (receive {} 0 { node := [r], lru := [0] } a1 (s.encode h pay ct).1) = (.err .InvalidData, { node := [r], lru := [0] }) := by decide
 /-- `ProducedBy` and `CtInjective` hold of the example table -/
 example : ProducedBy t [s] := by
   intro rec hm
@@ -405,6 +1742,60 @@ example : CtInjective t := by
   intro a ha b hb _
   simp only [t, List.mem_singleton] at ha hb
   rw [ha, hb]
+
+/-! ### group receive -/
+/-- fabric 1 maps group 7 to key set 1 (epoch key 9) and group 8 to key set 2 (epoch key 11) -/
+def f1 : FabricM := { fabIdx := 1, nodeId := 200, cfid := 5, keyMap := [(7, 1), (8, 2)], keySets := [{ id := 1, epochKeys := [9] }, { id := 2, epochKeys := [11] }] }
+/-- fabric 2 maps group 7 to the *same epoch key* — another operational key -/
+def f2 : FabricM := { fabIdx := 2, nodeId := 300, cfid := 6, keyMap := [(7, 1)], keySets := [{ id := 1, epochKeys := [9] }] }
+def gh : PacketHdr := { plain := { flags := 6, sessId := 33, secFlags := 1, ctr := 10, src := 50, dst := 7 }, proto := { exchFlags := 1, opcode := 8, exchId := 3, protoId := 1 } }
+def gs (key node : Nat) : Session := { addr := a9, localNode := node, encKey := key, decKey := key, mode := .group 1 7 }
+def gE (key node : Nat) : Env := { t := [mkRec (gs key node) gh pay ct], fabs := [f1, f2], gsid := fun _ => 33 }
+def gdg : Bytes := gh.plain.encode ++ ct
+
+/-- accepted under the key derived from the epoch key mapped to group 7 in fabric 1 — the hypotheses of
+`group_accept_only_authentic`, `handed_on_only_if_authentic` (third alternative), `group_session_bound` -/
+example : decodeStage (gE (opKey 9 5) 50) [] a1 gdg = .groupNew { fabIdx := 1, nodeId := 200, gid := 7, key := opKey 9 5 } gh pay := by decide
+example : (receive (gE (opKey 9 5) 50) 0 {} a1 gdg).1 = .ok 0 true gh pay := by decide
+example : ((receive (gE (opKey 9 5) 50) 0 {} a1 gdg).2.node.map (·.mode)) = [.group 1 7] := by decide
+/-- fabric 2's key for the same group id and epoch key is accepted *for fabric 2* -/
+example : decodeStage (gE (opKey 9 6) 50) [] a1 gdg = .groupNew { fabIdx := 2, nodeId := 300, gid := 7, key := opKey 9 6 } gh pay := by decide
+/-- another group's key (group 8's epoch key 11), a key the node does not hold, a directly installed key: rejected -/
+example : decodeStage (gE (opKey 11 5) 50) [] a1 gdg = .rej .InvalidSignature { plain := gh.plain } := by decide
+example : decodeStage (gE (opKey 12 5) 50) [] a1 gdg = .rej .InvalidSignature { plain := gh.plain } := by decide
+example : decodeStage (gE 4 50) [] a1 gdg = .rej .InvalidSignature { plain := gh.plain } := by decide
+/-- encrypted by another source node than the header names: rejected -/
+example : decodeStage (gE (opKey 9 5) 51) [] a1 gdg = .rej .InvalidSignature { plain := gh.plain } := by decide
+/-- the header re-addressed to group 8 (for which the key is not mapped), same cipher text: rejected -/
+example : decodeStage (gE (opKey 9 5) 50) [] a1 ((({ gh.plain with dst := 8 } : PlainHdr)).encode ++ ct)
+    = .rej .InvalidSignature { plain := { gh.plain with dst := 8 } } := by decide
+/-- no key with that group session id: `NoSession`; and a rejected group message touches nothing -/
+example : decodeStage { (gE (opKey 9 5) 50) with gsid := fun _ => 34 } [] a1 gdg = .rej .NoSession { plain := gh.plain } := by decide
+example : (receive (gE (opKey 11 5) 50) 0 { node := [r], lru := [0] } a1 gdg).2 = { node := [r], lru := [0] } := by decide
+/-- the counter store moves for the authentic message (`gstore_only_if_group_authentic` is not vacuous) -/
+example : (receive (gE (opKey 9 5) 50) 0 {} a1 gdg).2.gstore ≠ ({} : World).gstore := by decide
+/-- a replayed group message from another address: `Duplicate` by the counter store, no second session -/
+example : (receive (gE (opKey 9 5) 50) 0 (receive (gE (opKey 9 5) 50) 0 {} a1 gdg).2 a9 gdg).1 = .err .Duplicate := by decide
+/-- ... and from the same address, where it is matched to the ephemeral session the first copy created:
+`Duplicate` as well (`group_data_on_session_checked`); re-addressed to group 8 through that session: refused -/
+example : (receive (gE (opKey 9 5) 50) 0 (receive (gE (opKey 9 5) 50) 0 {} a1 gdg).2 a1 gdg).1 = .err .Duplicate := by decide
+def gh8 : PacketHdr := { gh with plain := { gh.plain with dst := 8, ctr := 11 } }
+example : (receive { (gE (opKey 9 5) 50) with t := [mkRec (gs (opKey 9 5) 50) gh8 pay [1, 2]] } 0
+    (receive (gE (opKey 9 5) 50) 0 {} a1 gdg).2 a1 (gh8.plain.encode ++ [1, 2])).1 = .err .NoSession := by decide
+
+/-! ### the whole receive step -/
+/-- `handleRx_rejected`: a secured unicast datagram for which there is no session is answered by one
+unsecured `SessionNotFound`; a forged one for an existing session by nothing; nothing changes -/
+example : (handleRx {} 0 0 { node := [], lru := [] } a1 (s.encode h pay ct).1).1.replies.map (fun x => (x.key, x.payload))
+    = [(none, statusReport GC_FAILURE SC_SESSION_NOT_FOUND [])] := by decide
+example : handleRx {} 0 0 { node := [r], lru := [0] } a1 (s.encode h pay ct).1 = ({}, { node := [r], lru := [0] }) := by decide
+/-- the clean datagram is handed on; replayed, it is answered by a stand-alone ACK on the session
+(the send counter moves: it is authentic) -/
+example : (handleRx E 0 0 { node := [r], lru := [0] } a1 (s.encode h pay ct).1).1.deliver = true := by decide
+example : ((handleRx E 0 0 (handleRx E 0 0 { node := [r], lru := [0] } a1 (s.encode h pay ct).1).2 a1 (s.encode h pay ct).1).1.replies.map
+    (fun x => (x.key, x.hdr.proto.opcode, x.hdr.proto.ack))) = [(some 4, Consts.opMrpStandaloneAck, 3)] := by decide
+/-- `inauthentic_is_rejected`: its hypotheses hold for the forged datagram on a node with session `r` -/
+example : ∃ e hh, decodeStage {} [r] a1 (s.encode h pay ct).1 = .rej e hh := ⟨.InvalidData, { plain := h.plain }, by decide⟩
 end Ex
 
 end C03
